@@ -23,6 +23,73 @@ def nspawn (sc : Script) : Nat := sc.countP isSpawnAct
 its children so far -/
 def base (prog : Prog) (ar : Nat → Nat) (k j : Nat) : Nat := 1 + ar k + nspawn ((prog.getD k []).take j)
 
+/-! messages as (tag, seq) keys: the part of a message a receiver can see -/
+
+def Msg.key (m : Msg) : Nat × Nat := (m.tag, m.seq)
+def keyVal (k : Nat × Nat) : Val := Val.tuple [[(k.1 : Int)], [(k.2 : Int)]]
+def Filter.acceptsK (f : Filter) (k : Nat × Nat) : Bool := f.accepts { src := 0, tag := k.1, seq := k.2 }
+
+theorem Msg.val_key (m : Msg) : m.val = keyVal m.key := rfl
+theorem accepts_key (f : Filter) (m : Msg) : f.accepts m = f.acceptsK m.key := by
+  cases f <;> rfl
+
+/-- `firstAccepted` on keys -/
+def firstAcceptedK (f : Filter) : List (Nat × Nat) → Option ((Nat × Nat) × List (Nat × Nat))
+  | [] => none
+  | m :: rest =>
+    if f.acceptsK m then some (m, rest)
+    else match firstAcceptedK f rest with
+      | some (x, rest') => some (x, m :: rest')
+      | none => none
+
+theorem firstAccepted_keys (f : Filter) : ∀ (mb : List Msg) (m : Msg) (mb' : List Msg),
+    firstAccepted f mb = some (m, mb') → firstAcceptedK f (mb.map Msg.key) = some (m.key, mb'.map Msg.key)
+  | [], _, _, h => by simp [firstAccepted] at h
+  | m0 :: rest, m, mb', h => by
+    unfold firstAccepted at h
+    simp only [List.map_cons, firstAcceptedK, ← accepts_key]
+    split at h
+    · rename_i ha
+      simp only [Option.some.injEq, Prod.mk.injEq] at h
+      obtain ⟨rfl, rfl⟩ := h
+      simp [ha]
+    · rename_i ha
+      simp only [ha, Bool.false_eq_true, if_false]
+      split at h
+      · rename_i x rest' hx
+        simp only [Option.some.injEq, Prod.mk.injEq] at h
+        obtain ⟨rfl, rfl⟩ := h
+        rw [firstAccepted_keys f rest x rest' hx]; rfl
+      · cases h
+
+/-- a receive that finds its message in a prefix of the stream finds the same one in the stream -/
+theorem firstAcceptedK_append (f : Filter) (t : List (Nat × Nat)) : ∀ (l : List (Nat × Nat)) (x : Nat × Nat) (l' : List (Nat × Nat)),
+    firstAcceptedK f l = some (x, l') → firstAcceptedK f (l ++ t) = some (x, l' ++ t)
+  | [], _, _, h => by simp [firstAcceptedK] at h
+  | m0 :: rest, x, l', h => by
+    simp only [firstAcceptedK, List.cons_append] at h ⊢
+    cases hacc : f.acceptsK m0 with
+    | true =>
+      simp only [hacc, if_true, Option.some.injEq, Prod.mk.injEq] at h ⊢
+      obtain ⟨rfl, rfl⟩ := h; exact ⟨rfl, rfl⟩
+    | false =>
+      simp only [hacc, Bool.false_eq_true, if_false] at h ⊢
+      cases hr : firstAcceptedK f rest with
+      | none => rw [hr] at h; cases h
+      | some yr =>
+        obtain ⟨y, rest'⟩ := yr
+        rw [hr] at h
+        simp only [Option.some.injEq, Prod.mk.injEq] at h
+        obtain ⟨rfl, rfl⟩ := h
+        rw [firstAcceptedK_append f t rest y rest' hr]; rfl
+
+def isRecvAct : Act → Bool
+  | .select [.recv _] => true
+  | _ => false
+
+/-- script `k` contains a receive -/
+def hasRecv (prog : Prog) (k : Nat) : Bool := (prog.getD k []).any isRecvAct
+
 /-- what one action of script `k` at position `j` must satisfy: `ρ k r` = the script run by the
 process held in register `r` of a process that runs script `k`; `ar k` = how many pids a process of
 script `k` is handed at spawn -/
@@ -32,6 +99,7 @@ def ActTyped (prog : Prog) (ρ : Nat → Nat → Nat) (ar : Nat → Nat) (k j : 
     pass.length = ar f ∧ (∀ i (h : i < pass.length), pass[i] < base prog ar k j ∧ ρ f (i + 1) = ρ k pass[i]) ∧
     ρ k (base prog ar k j) = f ∧ ρ f 0 = f
   | .select [.proc r] => r < base prog ar k j
+  | .select [.recv _] => True
   | _ => False
 
 /-- **Static register typing** of an await/spawn script table (no receive, no timeout, no `fail`,
@@ -41,74 +109,111 @@ structure RegTyping (prog : Prog) (ρ : Nat → Nat → Nat) (ar : Nat → Nat) 
   self0 : ρ 0 0 = 0
   acts : ∀ k j a, (prog.getD k [])[j]? = some a → ActTyped prog ρ ar k j a
 
-/-- the Kahn history of script `k` at position `pc` -/
-inductive Trace (prog : Prog) (ρ : Nat → Nat → Nat) : Nat → Nat → List Val → Prop
-  | zero (k : Nat) : Trace prog ρ k 0 []
-  | send (k pc : Nat) (acc : List Val) (r t q : Nat) : Trace prog ρ k pc acc →
-      (prog.getD k [])[pc]? = some (.send r t q) → Trace prog ρ k (pc + 1) acc
-  | spawn (k pc : Nat) (acc : List Val) (f : Nat) (pass : List Nat) : Trace prog ρ k pc acc →
-      (prog.getD k [])[pc]? = some (.spawn f pass) → Trace prog ρ k (pc + 1) acc
-  | await (k pc : Nat) (acc : List Val) (r : Nat) (a : List Val) : Trace prog ρ k pc acc →
+/-- the Kahn history of script `k` at position `pc`, and what is left of its input stream
+(`σ k`: the messages sent to it, in order) -/
+inductive Trace (prog : Prog) (ρ : Nat → Nat → Nat) (σ : Nat → List (Nat × Nat)) : Nat → Nat → List Val → List (Nat × Nat) → Prop
+  | zero (k : Nat) : Trace prog ρ σ k 0 [] (σ k)
+  | send (k pc : Nat) (acc : List Val) (rem : List (Nat × Nat)) (r t q : Nat) : Trace prog ρ σ k pc acc rem →
+      (prog.getD k [])[pc]? = some (.send r t q) → Trace prog ρ σ k (pc + 1) acc rem
+  | spawn (k pc : Nat) (acc : List Val) (rem : List (Nat × Nat)) (f : Nat) (pass : List Nat) : Trace prog ρ σ k pc acc rem →
+      (prog.getD k [])[pc]? = some (.spawn f pass) → Trace prog ρ σ k (pc + 1) acc rem
+  | await (k pc : Nat) (acc : List Val) (rem : List (Nat × Nat)) (r : Nat) (a : List Val) (rem' : List (Nat × Nat)) :
+      Trace prog ρ σ k pc acc rem →
       (prog.getD k [])[pc]? = some (.select [.proc r]) →
-      Trace prog ρ (ρ k r) (prog.getD (ρ k r) []).length a →
-      Trace prog ρ k (pc + 1) (acc ++ [Val.tuple ([(ρ k r : Int)] :: a)])
+      Trace prog ρ σ (ρ k r) (prog.getD (ρ k r) []).length a rem' →
+      Trace prog ρ σ k (pc + 1) (acc ++ [Val.tuple ([(ρ k r : Int)] :: a)]) rem
+  | recv (k pc : Nat) (acc : List Val) (rem : List (Nat × Nat)) (f : Filter) (key : Nat × Nat) (rem' : List (Nat × Nat)) :
+      Trace prog ρ σ k pc acc rem →
+      (prog.getD k [])[pc]? = some (.select [.recv f]) →
+      firstAcceptedK f rem = some (key, rem') →
+      Trace prog ρ σ k (pc + 1) (acc ++ [keyVal key]) rem'
 
 /-- **a script has one history**: the trace relation is functional -/
-theorem Trace.det {prog : Prog} {ρ : Nat → Nat → Nat} {k pc : Nat} {a1 : List Val} (h1 : Trace prog ρ k pc a1) :
-    ∀ {a2 : List Val}, Trace prog ρ k pc a2 → a1 = a2 := by
+theorem Trace.det {prog : Prog} {ρ : Nat → Nat → Nat} {σ : Nat → List (Nat × Nat)} {k pc : Nat} {a1 : List Val} {r1 : List (Nat × Nat)}
+    (h1 : Trace prog ρ σ k pc a1 r1) :
+    ∀ {a2 : List Val} {r2 : List (Nat × Nat)}, Trace prog ρ σ k pc a2 r2 → a1 = a2 ∧ r1 = r2 := by
   induction h1 with
-  | zero k => intro a2 h2; cases h2; rfl
-  | send k pc acc r t q _ hs ih =>
-    intro a2 h2
+  | zero k => intro a2 r2 h2; cases h2; exact ⟨rfl, rfl⟩
+  | send k pc acc rem r t q _ hs ih =>
+    intro a2 r2 h2
     cases h2 with
-    | send _ _ _ _ _ _ h2' _ => exact ih h2'
-    | spawn _ _ _ _ _ h2' hs' => rw [hs] at hs'; cases hs'
-    | await _ _ _ _ _ h2' hs' _ => rw [hs] at hs'; cases hs'
-  | spawn k pc acc f pass _ hs ih =>
-    intro a2 h2
+    | send _ _ _ _ _ _ _ h2' _ => exact ih h2'
+    | spawn _ _ _ _ _ _ h2' hs' => rw [hs] at hs'; cases hs'
+    | await _ _ _ _ _ _ _ h2' hs' _ => rw [hs] at hs'; cases hs'
+    | recv _ _ _ _ _ _ _ h2' hs' _ => rw [hs] at hs'; cases hs'
+  | spawn k pc acc rem f pass _ hs ih =>
+    intro a2 r2 h2
     cases h2 with
-    | send _ _ _ _ _ _ h2' hs' => rw [hs] at hs'; cases hs'
-    | spawn _ _ _ _ _ h2' _ => exact ih h2'
-    | await _ _ _ _ _ h2' hs' _ => rw [hs] at hs'; cases hs'
-  | await k pc acc r a _ hs _ ih1 ih2 =>
-    intro a2 h2
+    | send _ _ _ _ _ _ _ h2' hs' => rw [hs] at hs'; cases hs'
+    | spawn _ _ _ _ _ _ h2' _ => exact ih h2'
+    | await _ _ _ _ _ _ _ h2' hs' _ => rw [hs] at hs'; cases hs'
+    | recv _ _ _ _ _ _ _ h2' hs' _ => rw [hs] at hs'; cases hs'
+  | await k pc acc rem r a rem' _ hs _ ih1 ih2 =>
+    intro a2 r2 h2
     cases h2 with
-    | send _ _ _ _ _ _ h2' hs' => rw [hs] at hs'; cases hs'
-    | spawn _ _ _ _ _ h2' hs' => rw [hs] at hs'; cases hs'
-    | await _ _ acc' r' a' h2' hs' ht' =>
+    | send _ _ _ _ _ _ _ h2' hs' => rw [hs] at hs'; cases hs'
+    | spawn _ _ _ _ _ _ h2' hs' => rw [hs] at hs'; cases hs'
+    | await _ _ acc' _ r' a' rem2 h2' hs' ht' =>
       rw [hs] at hs'
       simp only [Option.some.injEq, Act.select.injEq, List.cons.injEq, Src.proc.injEq, and_true] at hs'
       subst hs'
-      rw [ih1 h2', ih2 ht']
+      obtain ⟨e1, e2⟩ := ih1 h2'
+      obtain ⟨e3, _⟩ := ih2 ht'
+      exact ⟨by rw [e1, e3], e2⟩
+    | recv _ _ _ _ _ _ _ h2' hs' _ => rw [hs] at hs'; simp at hs'
+  | recv k pc acc rem f key rem' _ hs hf ih =>
+    intro a2 r2 h2
+    cases h2 with
+    | send _ _ _ _ _ _ _ h2' hs' => rw [hs] at hs'; cases hs'
+    | spawn _ _ _ _ _ _ h2' hs' => rw [hs] at hs'; cases hs'
+    | await _ _ _ _ _ _ _ h2' hs' _ => rw [hs] at hs'; simp at hs'
+    | recv _ _ acc' rem2 f' key' _ h2' hs' hf' =>
+      rw [hs] at hs'
+      simp only [Option.some.injEq, Act.select.injEq, List.cons.injEq, Src.recv.injEq, and_true] at hs'
+      subst hs'
+      obtain ⟨e1, e2⟩ := ih h2'
+      subst e1 e2
+      rw [hf] at hf'
+      simp only [Option.some.injEq, Prod.mk.injEq] at hf'
+      obtain ⟨rfl, rfl⟩ := hf'
+      exact ⟨rfl, rfl⟩
 
 /-- earlier positions have a prefix of the history -/
-theorem Trace.prefix {prog : Prog} {ρ : Nat → Nat → Nat} {k pc2 : Nat} {a2 : List Val} (h2 : Trace prog ρ k pc2 a2) :
-    ∀ {pc1 : Nat} {a1 : List Val}, Trace prog ρ k pc1 a1 → pc1 ≤ pc2 → a1 <+: a2 := by
+theorem Trace.prefix {prog : Prog} {ρ : Nat → Nat → Nat} {σ : Nat → List (Nat × Nat)} {k pc2 : Nat} {a2 : List Val} {r2 : List (Nat × Nat)}
+    (h2 : Trace prog ρ σ k pc2 a2 r2) :
+    ∀ {pc1 : Nat} {a1 : List Val} {r1 : List (Nat × Nat)}, Trace prog ρ σ k pc1 a1 r1 → pc1 ≤ pc2 → a1 <+: a2 := by
   induction h2 with
-  | zero k => intro pc1 a1 h1 hle; have : pc1 = 0 := by omega
+  | zero k => intro pc1 a1 r1 h1 hle; have : pc1 = 0 := by omega
               subst this; cases h1; exact List.prefix_refl _
-  | send k pc acc r t q h hs ih =>
-    intro pc1 a1 h1 hle
+  | send k pc acc rem r t q h hs ih =>
+    intro pc1 a1 r1 h1 hle
     by_cases e : pc1 = pc + 1
-    · subst e; rw [h1.det (Trace.send k pc acc r t q h hs)]; exact List.prefix_refl _
+    · subst e; rw [(h1.det (Trace.send k pc acc rem r t q h hs)).1]; exact List.prefix_refl _
     · exact ih h1 (by omega)
-  | spawn k pc acc f pass h hs ih =>
-    intro pc1 a1 h1 hle
+  | spawn k pc acc rem f pass h hs ih =>
+    intro pc1 a1 r1 h1 hle
     by_cases e : pc1 = pc + 1
-    · subst e; rw [h1.det (Trace.spawn k pc acc f pass h hs)]; exact List.prefix_refl _
+    · subst e; rw [(h1.det (Trace.spawn k pc acc rem f pass h hs)).1]; exact List.prefix_refl _
     · exact ih h1 (by omega)
-  | await k pc acc r a h hs ht ih _ =>
-    intro pc1 a1 h1 hle
+  | await k pc acc rem r a rem' h hs ht ih _ =>
+    intro pc1 a1 r1 h1 hle
     by_cases e : pc1 = pc + 1
-    · subst e; rw [h1.det (Trace.await k pc acc r a h hs ht)]; exact List.prefix_refl _
+    · subst e; rw [(h1.det (Trace.await k pc acc rem r a rem' h hs ht)).1]; exact List.prefix_refl _
+    · exact (ih h1 (by omega)).trans (List.prefix_append _ _)
+  | recv k pc acc rem f key rem' h hs hf ih =>
+    intro pc1 a1 r1 h1 hle
+    by_cases e : pc1 = pc + 1
+    · subst e; rw [(h1.det (Trace.recv k pc acc rem f key rem' h hs hf)).1]; exact List.prefix_refl _
     · exact (ih h1 (by omega)).trans (List.prefix_append _ _)
 
 /-! ### one time slice -/
 
 theorem actTyped_select {prog : Prog} {ρ : Nat → Nat → Nat} {ar : Nat → Nat} {k j : Nat} {srcs : List Src}
-    (h : ActTyped prog ρ ar k j (.select srcs)) : ∃ r, srcs = [.proc r] ∧ r < base prog ar k j := by
+    (h : ActTyped prog ρ ar k j (.select srcs)) :
+    (∃ r, srcs = [.proc r] ∧ r < base prog ar k j) ∨ (∃ f, srcs = [.recv f]) := by
   match srcs, h with
-  | [.proc r], h => exact ⟨r, rfl, h⟩
+  | [.proc r], h => exact Or.inl ⟨r, rfl, h⟩
+  | [.recv f], _ => exact Or.inr ⟨f, rfl⟩
 
 theorem nspawn_take_succ {sc : Script} {j : Nat} {a : Act} (h : sc[j]? = some a) :
     nspawn (sc.take (j + 1)) = nspawn (sc.take j) + (if isSpawnAct a then 1 else 0) := by
@@ -120,6 +225,12 @@ theorem lt_of_getElem?_some {α : Type} {l : List α} {j : Nat} {a : α} (h : l[
   rcases Nat.lt_or_ge j l.length with h1 | h1
   · exact h1
   · rw [List.getElem?_eq_none h1] at h; cases h
+
+theorem hasRecv_of_getElem {prog : Prog} {k j : Nat} {f : Filter} (h : (prog.getD k [])[j]? = some (.select [.recv f])) :
+    hasRecv prog k = true := by
+  unfold hasRecv
+  rw [List.any_eq_true]
+  exact ⟨_, List.mem_of_getElem? h, rfl⟩
 
 theorem firstReady_single (p : Proc) (now start : Nat) (src : Src) :
     firstReady p now start [src] = srcReady p now start src := by
@@ -138,27 +249,42 @@ theorem srcReady_proc (p : Proc) (now start r : Nat) (hf : p.awaitFailed = []) :
     | none => exact Or.inr rfl
     | some v => exact Or.inl ⟨v, rfl, rfl⟩
 
+theorem srcReady_recv (p : Proc) (now start : Nat) (f : Filter) :
+    (∃ m rest, firstAccepted f p.mailbox = some (m, rest) ∧ srcReady p now start (.recv f) = .yes m.val rest) ∨
+    srcReady p now start (.recv f) = .no := by
+  simp only [srcReady]
+  cases h : firstAccepted f p.mailbox with
+  | none => exact Or.inr rfl
+  | some mr => obtain ⟨m, rest⟩ := mr; exact Or.inl ⟨m, rest, rfl, rfl⟩
+
 /-- a value is the result of a complete run of script `f` -/
-def GoodVal (prog : Prog) (ρ : Nat → Nat → Nat) (f : Nat) (v : Val) : Prop :=
-  ∃ a, v = Val.tuple ([(f : Int)] :: a) ∧ Trace prog ρ f (prog.getD f []).length a
+def GoodVal (prog : Prog) (ρ : Nat → Nat → Nat) (σ : Nat → List (Nat × Nat)) (f : Nat) (v : Val) : Prop :=
+  ∃ a rem, v = Val.tuple ([(f : Int)] :: a) ∧ Trace prog ρ σ f (prog.getD f []).length a rem
+
+/-- history and input: the trace of the process, whose remaining stream (if the script receives
+at all) is the mailbox followed by `tail`, what has not arrived yet -/
+def TraceMb (prog : Prog) (ρ : Nat → Nat → Nat) (σ : Nat → List (Nat × Nat)) (tail : List (Nat × Nat)) (x : Proc) : Prop :=
+  ∃ rem, Trace prog ρ σ x.fn x.pc x.acc rem ∧ (hasRecv prog x.fn = true → rem = x.mailbox.map Msg.key ++ tail)
 
 /-- the process-local facts a time slice starts from -/
-structure Runnable (prog : Prog) (ρ : Nat → Nat → Nat) (ar : Nat → Nat) (x : Proc) : Prop where
+structure Runnable (prog : Prog) (ρ : Nat → Nat → Nat) (ar : Nat → Nat) (σ : Nat → List (Nat × Nat)) (tail : List (Nat × Nat))
+    (x : Proc) : Prop where
   res : x.result = none
   issued : x.spawnIssued = false
   nofail : x.awaitFailed = []
   pcle : x.pc ≤ (prog.getD x.fn []).length
-  trace : Trace prog ρ x.fn x.pc x.acc
+  trace : TraceMb prog ρ σ tail x
   rlen : x.regs.length = base prog ar x.fn x.pc
-  store : ∀ r v, r < x.regs.length → (x.reg r, some v) ∈ x.awaiting → GoodVal prog ρ (ρ x.fn r) v
+  store : ∀ r v, r < x.regs.length → (x.reg r, some v) ∈ x.awaiting → GoodVal prog ρ σ (ρ x.fn r) v
 
-structure SliceOK (prog : Prog) (ρ : Nat → Nat → Nat) (x : Proc) (r : Proc × Outcome) : Prop where
+structure SliceOK (prog : Prog) (ρ : Nat → Nat → Nat) (σ : Nat → List (Nat × Nat)) (tail : List (Nat × Nat)) (x : Proc)
+    (r : Proc × Outcome) : Prop where
   fn : r.1.fn = x.fn
   regs : r.1.regs = x.regs
   nofail : r.1.awaitFailed = []
   res : r.1.result = none
   pcle : r.1.pc ≤ (prog.getD x.fn []).length
-  trace : Trace prog ρ x.fn r.1.pc r.1.acc
+  trace : TraceMb prog ρ σ tail r.1
   nsp : nspawn ((prog.getD x.fn []).take r.1.pc) = nspawn ((prog.getD x.fn []).take x.pc)
   notFailed : r.2 ≠ .failed
   spawnOut : ∀ f regs, r.2 = .spawn f regs →
@@ -166,8 +292,9 @@ structure SliceOK (prog : Prog) (ρ : Nat → Nat → Nat) (x : Proc) (r : Proc 
   other : (∀ f regs, r.2 ≠ .spawn f regs) → r.1.spawnIssued = false
   done : r.2 = .done → r.1.pc = (prog.getD x.fn []).length
 
-theorem slice_spec {prog : Prog} {ρ : Nat → Nat → Nat} {ar : Nat → Nat} (ht : RegTyping prog ρ ar) (now : Nat) (self : Pid) :
-    ∀ (fuel : Nat) (x : Proc), Runnable prog ρ ar x → SliceOK prog ρ x (slice prog now self fuel x)
+theorem slice_spec {prog : Prog} {ρ : Nat → Nat → Nat} {ar : Nat → Nat} {σ : Nat → List (Nat × Nat)} (ht : RegTyping prog ρ ar)
+    (tail : List (Nat × Nat)) (now : Nat) (self : Pid) :
+    ∀ (fuel : Nat) (x : Proc), Runnable prog ρ ar σ tail x → SliceOK prog ρ σ tail x (slice prog now self fuel x)
   | 0, x, h => by
     unfold slice
     exact ⟨rfl, rfl, h.nofail, h.res, h.pcle, h.trace, rfl, by simp, by simp, fun _ => h.issued, by simp⟩
@@ -177,7 +304,7 @@ theorem slice_spec {prog : Prog} {ρ : Nat → Nat → Nat} {ar : Nat → Nat} (
     · rename_i hnone
       have hge : (prog.getD x.fn []).length ≤ x.pc := by
         rcases Nat.lt_or_ge x.pc (prog.getD x.fn []).length with h1 | h1
-        · have : (x.script prog)[x.pc]? = some ((prog.getD x.fn [])[x.pc]) := by simp [Proc.script, h1]
+        · have : (x.script prog)[x.pc]? = some ((prog.getD x.fn [])[x.pc]) := by simp [Proc.script]
           rw [this] at hnone; cases hnone
         · exact h1
       exact ⟨rfl, rfl, h.nofail, h.res, h.pcle, h.trace, rfl, by simp, by simp, fun _ => h.issued,
@@ -185,7 +312,8 @@ theorem slice_spec {prog : Prog} {ρ : Nat → Nat → Nat} {ar : Nat → Nat} (
     · rename_i r tag seq hs
       have hs' : (prog.getD x.fn [])[x.pc]? = some (.send r tag seq) := hs
       have hlt := lt_of_getElem?_some hs'
-      refine ⟨rfl, rfl, h.nofail, h.res, hlt, Trace.send _ _ _ r tag seq h.trace hs', ?_, by simp, by simp, fun _ => h.issued, by simp⟩
+      obtain ⟨rem, htr, hrem⟩ := h.trace
+      refine ⟨rfl, rfl, h.nofail, h.res, hlt, ⟨rem, Trace.send _ _ _ _ r tag seq htr hs', hrem⟩, ?_, by simp, by simp, fun _ => h.issued, by simp⟩
       show nspawn ((prog.getD x.fn []).take (x.pc + 1)) = _
       rw [nspawn_take_succ hs']; simp [isSpawnAct]
     · rename_i f pass hs
@@ -202,51 +330,83 @@ theorem slice_spec {prog : Prog} {ρ : Nat → Nat → Nat} {ar : Nat → Nat} (
       exact (ht.acts _ _ _ hs').elim
     · rename_i srcs hs
       have hs' : (prog.getD x.fn [])[x.pc]? = some (.select srcs) := hs
-      obtain ⟨r, rfl, hr⟩ := actTyped_select (ht.acts _ _ _ hs')
       have hlt := lt_of_getElem?_some hs'
-      split
-      · -- initialize_select: one process source, so an Await goes out
-        simp only [selTargets, List.isEmpty_cons, Bool.false_eq_true, if_false]
-        exact ⟨rfl, rfl, h.nofail, h.res, h.pcle, h.trace, rfl, by simp, by simp, fun _ => h.issued, by simp⟩
-      · dsimp only
-        rw [firstReady_single]
-        rcases srcReady_proc { x with selStart := some (x.selStart.getD now) } now (x.selStart.getD now) r h.nofail with ⟨v, hv, hready⟩ | hready
-        · rw [hready]
-          dsimp only
-          have hmem : (x.reg r, some v) ∈ x.awaiting := alookup_mem hv
-          have hgood := h.store r v (by rw [h.rlen]; exact hr) hmem
-          obtain ⟨a, rfl, hta⟩ := hgood
-          have hnsp : nspawn ((prog.getD x.fn []).take (x.pc + 1)) = nspawn ((prog.getD x.fn []).take x.pc) := by
-            rw [nspawn_take_succ hs']; simp [isSpawnAct]
-          have ih := slice_spec ht now self fuel
-            { x with selStart := none, pc := x.pc + 1, selInit := false, acc := x.acc ++ [Val.tuple ([(ρ x.fn r : Int)] :: a)], mailbox := x.mailbox,
-                     awaiting := x.awaiting.filter (fun kv => kv.1 ∉ selTargets x [.proc r]),
-                     awaitFailed := x.awaitFailed.filter (· ∉ selTargets x [.proc r]) }
-            { res := h.res, issued := h.issued, nofail := by simp [h.nofail], pcle := hlt,
-              trace := Trace.await _ _ _ r a h.trace hs' hta,
-              rlen := by show x.regs.length = base prog ar x.fn (x.pc + 1)
-                         rw [h.rlen]; unfold base; rw [hnsp],
-              store := fun r' v' hr' hm' => h.store r' v' hr' (List.mem_filter.mp hm').1 }
-          exact ⟨ih.fn, ih.regs, ih.nofail, ih.res, ih.pcle, ih.trace, ih.nsp.trans hnsp, ih.notFailed, ih.spawnOut, ih.other, ih.done⟩
-        · rw [hready]
-          exact ⟨rfl, rfl, h.nofail, h.res, h.pcle, h.trace, rfl, by simp, by simp, fun _ => h.issued, by simp⟩
+      have hnsp : nspawn ((prog.getD x.fn []).take (x.pc + 1)) = nspawn ((prog.getD x.fn []).take x.pc) := by
+        rw [nspawn_take_succ hs']; simp [isSpawnAct]
+      obtain ⟨rem, htr, hrem⟩ := h.trace
+      rcases actTyped_select (ht.acts _ _ _ hs') with ⟨r, rfl, hr⟩ | ⟨f, rfl⟩
+      · split
+        · -- initialize_select: one process source, so an Await goes out
+          simp only [selTargets, List.isEmpty_cons, Bool.false_eq_true, if_false]
+          exact ⟨rfl, rfl, h.nofail, h.res, h.pcle, ⟨rem, htr, hrem⟩, rfl, by simp, by simp, fun _ => h.issued, by simp⟩
+        · dsimp only
+          rw [firstReady_single]
+          rcases srcReady_proc { x with selStart := some (x.selStart.getD now) } now (x.selStart.getD now) r h.nofail with ⟨v, hv, hready⟩ | hready
+          · rw [hready]
+            dsimp only
+            have hmem : (x.reg r, some v) ∈ x.awaiting := alookup_mem hv
+            have hgood := h.store r v (by rw [h.rlen]; exact hr) hmem
+            obtain ⟨a, rema, rfl, hta⟩ := hgood
+            have ih := slice_spec ht tail now self fuel
+              { x with selStart := none, pc := x.pc + 1, selInit := false, acc := x.acc ++ [Val.tuple ([(ρ x.fn r : Int)] :: a)], mailbox := x.mailbox,
+                       awaiting := x.awaiting.filter (fun kv => kv.1 ∉ selTargets x [.proc r]),
+                       awaitFailed := x.awaitFailed.filter (· ∉ selTargets x [.proc r]) }
+              { res := h.res, issued := h.issued, nofail := by simp [h.nofail], pcle := hlt,
+                trace := ⟨rem, Trace.await _ _ _ _ r a rema htr hs' hta, hrem⟩,
+                rlen := by show x.regs.length = base prog ar x.fn (x.pc + 1)
+                           rw [h.rlen]; unfold base; rw [hnsp],
+                store := fun r' v' hr' hm' => h.store r' v' hr' (List.mem_filter.mp hm').1 }
+            exact ⟨ih.fn, ih.regs, ih.nofail, ih.res, ih.pcle, ih.trace, ih.nsp.trans hnsp, ih.notFailed, ih.spawnOut, ih.other, ih.done⟩
+          · rw [hready]
+            exact ⟨rfl, rfl, h.nofail, h.res, h.pcle, ⟨rem, htr, hrem⟩, rfl, by simp, by simp, fun _ => h.issued, by simp⟩
+      · have hhas := hasRecv_of_getElem hs'
+        split
+        · -- initialize_select without process sources: the select is evaluated in the same slice
+          simp only [selTargets, List.isEmpty_nil, if_true]
+          have ih := slice_spec ht tail now self fuel { x with selInit := true, selStart := some now }
+            { res := h.res, issued := h.issued, nofail := h.nofail, pcle := h.pcle, trace := ⟨rem, htr, hrem⟩,
+              rlen := h.rlen, store := h.store }
+          exact ⟨ih.fn, ih.regs, ih.nofail, ih.res, ih.pcle, ih.trace, ih.nsp, ih.notFailed, ih.spawnOut, ih.other, ih.done⟩
+        · dsimp only
+          rw [firstReady_single]
+          rcases srcReady_recv { x with selStart := some (x.selStart.getD now) } now (x.selStart.getD now) f with ⟨m, rest, hfa, hready⟩ | hready
+          · rw [hready]
+            dsimp only
+            have hfa' : firstAccepted f x.mailbox = some (m, rest) := hfa
+            have hk := firstAcceptedK_append f tail _ _ _ (firstAccepted_keys f _ _ _ hfa')
+            rw [← hrem hhas] at hk
+            have ih := slice_spec ht tail now self fuel
+              { x with selStart := none, pc := x.pc + 1, selInit := false, acc := x.acc ++ [m.val], mailbox := rest,
+                       awaiting := x.awaiting.filter (fun kv => kv.1 ∉ selTargets x [.recv f]),
+                       awaitFailed := x.awaitFailed.filter (· ∉ selTargets x [.recv f]) }
+              { res := h.res, issued := h.issued, nofail := by simp [h.nofail], pcle := hlt,
+                trace := ⟨rest.map Msg.key ++ tail, by rw [Msg.val_key]; exact Trace.recv _ _ _ _ f m.key _ htr hs' hk, fun _ => rfl⟩,
+                rlen := by show x.regs.length = base prog ar x.fn (x.pc + 1)
+                           rw [h.rlen]; unfold base; rw [hnsp],
+                store := fun r' v' hr' hm' => h.store r' v' hr' (List.mem_filter.mp hm').1 }
+            exact ⟨ih.fn, ih.regs, ih.nofail, ih.res, ih.pcle, ih.trace, ih.nsp.trans hnsp, ih.notFailed, ih.spawnOut, ih.other, ih.done⟩
+          · rw [hready]
+            exact ⟨rfl, rfl, h.nofail, h.res, h.pcle, ⟨rem, htr, hrem⟩, rfl, by simp, by simp, fun _ => h.issued, by simp⟩
 
 /-! ### the system invariant -/
 
 /-- the control part of a process: what the trace invariant talks about -/
-def Ctl (x : Proc) : Nat × Nat × List Pid × List Val × Bool × Option Res × List Pid :=
-  (x.fn, x.pc, x.regs, x.acc, x.spawnIssued, x.result, x.awaitFailed)
+def Ctl (x : Proc) : Nat × Nat × List Pid × List Val × Bool × Option Res × List Pid × List Msg :=
+  (x.fn, x.pc, x.regs, x.acc, x.spawnIssued, x.result, x.awaitFailed, x.mailbox)
+
+/-- how many messages have been appended to the mailbox of `p` so far (ghost history) -/
+def napp (s : Sys) (p : Pid) : Nat := (s.appended.filter (fun e => e.1 = p)).length
 
 /-- pid `q` runs (or, still in its SpawnProcess command, will run) script `f` -/
 def Sid (s : Sys) (q : Pid) (f : Nat) : Prop :=
   (∃ w y, (s.wk w).procs q = some y ∧ y.fn = f) ∨ (∃ w regs, Cmd.spawn q f regs ∈ s.cmdQ w)
 
-structure PInv (ρ : Nat → Nat → Nat) (ar : Nat → Nat) (s : Sys) (w : Wid) (p : Pid) (x : Proc) : Prop where
+structure PInv (ρ : Nat → Nat → Nat) (ar : Nat → Nat) (σ : Nat → List (Nat × Nat)) (s : Sys) (w : Wid) (p : Pid) (x : Proc) : Prop where
   noerr : x.result ≠ some .err
   nofail : x.awaitFailed = []
   pcle : x.pc ≤ (s.prog.getD x.fn []).length
   fin : ∀ v, x.result = some (.ok v) → v = x.value ∧ x.pc = (s.prog.getD x.fn []).length ∧ x.spawnIssued = false
-  trace : Trace s.prog ρ x.fn x.pc x.acc
+  trace : TraceMb s.prog ρ σ ((σ x.fn).drop (napp s p)) x
   rlen : x.regs.length = base s.prog ar x.fn x.pc
   rsid : ∀ r (h : r < x.regs.length), Sid s x.regs[r] (ρ x.fn r)
   parked : x.spawnIssued = true → p ∈ (s.wk w).spawning ∧ ∃ f pass, (s.prog.getD x.fn [])[x.pc]? = some (.spawn f pass)
@@ -254,35 +414,37 @@ structure PInv (ρ : Nat → Nat → Nat) (ar : Nat → Nat) (s : Sys) (w : Wid)
   spev : ∀ f regs coloc, Evt.spawn p f regs coloc ∈ s.evtQ w →
     ∃ pass, (s.prog.getD x.fn [])[x.pc]? = some (.spawn f pass) ∧ regs = pass.map x.reg
 
-structure KInv (ρ : Nat → Nat → Nat) (ar : Nat → Nat) (s : Sys) : Prop where
+structure KInv (ρ : Nat → Nat → Nat) (ar : Nat → Nat) (σ : Nat → List (Nat × Nat)) (s : Sys) : Prop where
   t : TInv s
   wi : WInv s
   typing : RegTyping s.prog ρ ar
-  procs : ∀ w p x, (s.wk w).procs p = some x → PInv ρ ar s w p x
+  procs : ∀ w p x, (s.wk w).procs p = some x → PInv ρ ar σ s w p x
   cmds : ∀ w q f regs, Cmd.spawn q f regs ∈ s.cmdQ w →
     regs.length = ar f ∧ ρ f 0 = f ∧ ∀ i (h : i < regs.length), Sid s regs[i] (ρ f (i + 1))
+  appKnown : ∀ e ∈ s.appended, ∃ w, known s w e.1
 
 theorem ctl_eq {x x' : Proc} (h : Ctl x' = Ctl x) :
     x'.fn = x.fn ∧ x'.pc = x.pc ∧ x'.regs = x.regs ∧ x'.acc = x.acc ∧ x'.spawnIssued = x.spawnIssued ∧
-    x'.result = x.result ∧ x'.awaitFailed = x.awaitFailed := by
+    x'.result = x.result ∧ x'.awaitFailed = x.awaitFailed ∧ x'.mailbox = x.mailbox := by
   simpa [Ctl] using h
 
-theorem PInv.transfer {ρ : Nat → Nat → Nat} {ar : Nat → Nat} {s s' : Sys} {w : Wid} {p : Pid} {x x' : Proc}
-    (h : PInv ρ ar s w p x) (hprog : s'.prog = s.prog) (hsid : ∀ q f, Sid s q f → Sid s' q f) (hc : Ctl x' = Ctl x)
+theorem PInv.transfer' {ρ : Nat → Nat → Nat} {ar : Nat → Nat} {σ : Nat → List (Nat × Nat)} {s s' : Sys} {w : Wid} {p : Pid} {x x' : Proc}
+    (h : PInv ρ ar σ s w p x) (hprog : s'.prog = s.prog) (hsid : ∀ q f, Sid s q f → Sid s' q f)
+    (e1 : x'.fn = x.fn) (e2 : x'.pc = x.pc) (e3 : x'.regs = x.regs) (e4 : x'.acc = x.acc)
+    (e5 : x'.spawnIssued = x.spawnIssued) (e6 : x'.result = x.result) (e7 : x'.awaitFailed = x.awaitFailed)
     (hsp : p ∈ (s.wk w).spawning → p ∈ (s'.wk w).spawning)
     (hn : ∀ q, Cmd.notifySpawn p q ∈ s'.cmdQ w → Cmd.notifySpawn p q ∈ s.cmdQ w ∨
       ∃ f pass, (s.prog.getD x.fn [])[x.pc]? = some (.spawn f pass) ∧ Sid s' q f)
-    (he : ∀ f regs coloc, Evt.spawn p f regs coloc ∈ s'.evtQ w → Evt.spawn p f regs coloc ∈ s.evtQ w) :
-    PInv ρ ar s' w p x' := by
-  obtain ⟨e1, e2, e3, e4, e5, e6, e7⟩ := ctl_eq hc
+    (he : ∀ f regs coloc, Evt.spawn p f regs coloc ∈ s'.evtQ w → Evt.spawn p f regs coloc ∈ s.evtQ w)
+    (htrace : TraceMb s'.prog ρ σ ((σ x'.fn).drop (napp s' p)) x') :
+    PInv ρ ar σ s' w p x' := by
   have ev : x'.value = x.value := by simp [Proc.value, e1, e4]
   have er : x'.reg = x.reg := by funext r; simp [Proc.reg, e3]
-  refine ⟨?_, ?_, ?_, ?_, ?_, ?_, ?_, ?_, ?_, ?_⟩
+  refine ⟨?_, ?_, ?_, ?_, htrace, ?_, ?_, ?_, ?_, ?_⟩
   · rw [e6]; exact h.noerr
   · rw [e7]; exact h.nofail
   · rw [e2, e1, hprog]; exact h.pcle
   · rw [e6, e2, e1, e5, ev, hprog]; exact h.fin
-  · rw [e1, e2, e4, hprog]; exact h.trace
   · rw [e1, e2, e3, hprog]; exact h.rlen
   · intro r hr
     have hr' : r < x.regs.length := e3 ▸ hr
@@ -298,6 +460,19 @@ theorem PInv.transfer {ρ : Nat → Nat → Nat} {ar : Nat → Nat} {s s' : Sys}
   · intro f regs coloc hq
     obtain ⟨pass, h1, h2⟩ := h.spev f regs coloc (he f regs coloc hq)
     exact ⟨pass, by rw [e1, e2, hprog]; exact h1, by rw [er]; exact h2⟩
+
+theorem PInv.transfer {ρ : Nat → Nat → Nat} {ar : Nat → Nat} {σ : Nat → List (Nat × Nat)} {s s' : Sys} {w : Wid} {p : Pid} {x x' : Proc}
+    (h : PInv ρ ar σ s w p x) (hprog : s'.prog = s.prog) (hsid : ∀ q f, Sid s q f → Sid s' q f) (hc : Ctl x' = Ctl x)
+    (hsp : p ∈ (s.wk w).spawning → p ∈ (s'.wk w).spawning)
+    (hn : ∀ q, Cmd.notifySpawn p q ∈ s'.cmdQ w → Cmd.notifySpawn p q ∈ s.cmdQ w ∨
+      ∃ f pass, (s.prog.getD x.fn [])[x.pc]? = some (.spawn f pass) ∧ Sid s' q f)
+    (he : ∀ f regs coloc, Evt.spawn p f regs coloc ∈ s'.evtQ w → Evt.spawn p f regs coloc ∈ s.evtQ w)
+    (happ : napp s' p = napp s p) :
+    PInv ρ ar σ s' w p x' := by
+  obtain ⟨e1, e2, e3, e4, e5, e6, e7, e8⟩ := ctl_eq hc
+  refine h.transfer' hprog hsid e1 e2 e3 e4 e5 e6 e7 hsp hn he ?_
+  obtain ⟨rem, htr, hrem⟩ := h.trace
+  exact ⟨rem, by rw [e1, e2, e4, hprog]; exact htr, by rw [e1, e8, hprog, happ]; exact hrem⟩
 
 theorem mem_creates {l : List Cmd} {q : Pid} : q ∈ creates l ↔ ∃ f regs, Cmd.spawn q f regs ∈ l := by
   unfold creates
@@ -335,14 +510,15 @@ theorem Sid.mono {s s' : Sys}
     · exact Or.inl ⟨w', y, hy, hf⟩
 
 /-- frame of a worker-side micro-step: everything outside worker `i`'s processes carries over -/
-theorem KInv.workerFrame {ρ : Nat → Nat → Nat} {ar : Nat → Nat} {s s' : Sys} (h : KInv ρ ar s) (i : Wid)
+theorem KInv.workerFrame {ρ : Nat → Nat → Nat} {ar : Nat → Nat} {σ : Nat → List (Nat × Nat)} {s s' : Sys} (h : KInv ρ ar σ s) (i : Wid)
     (hprog : s'.prog = s.prog)
     (hwk : ∀ k, k ≠ i → s'.wk k = s.wk k)
     (hcq : ∀ w c, c ∈ s'.cmdQ w → c ∈ s.cmdQ w)
     (hevo : ∀ k, k ≠ i → ∀ e, e ∈ s'.evtQ k → e ∈ s.evtQ k)
     (hsid : ∀ q f, Sid s q f → Sid s' q f)
-    (hpi : ∀ p x', (s'.wk i).procs p = some x' → PInv ρ ar s' i p x') :
-    (∀ w p x, (s'.wk w).procs p = some x → PInv ρ ar s' w p x) ∧
+    (hna : ∀ w p, w ≠ i → ((s.wk w).procs p).isSome → napp s' p = napp s p)
+    (hpi : ∀ p x', (s'.wk i).procs p = some x' → PInv ρ ar σ s' i p x') :
+    (∀ w p x, (s'.wk w).procs p = some x → PInv ρ ar σ s' w p x) ∧
     (∀ w q f regs, Cmd.spawn q f regs ∈ s'.cmdQ w →
       regs.length = ar f ∧ ρ f 0 = f ∧ ∀ i (h : i < regs.length), Sid s' regs[i] (ρ f (i + 1))) := by
   refine ⟨?_, ?_⟩
@@ -351,6 +527,7 @@ theorem KInv.workerFrame {ρ : Nat → Nat → Nat} {ar : Nat → Nat} {s s' : S
     · subst hw; exact hpi p x hx
     · rw [hwk w hw] at hx
       refine (h.procs w p x hx).transfer hprog hsid rfl ?_ (fun q hq => Or.inl (hcq w _ hq)) (fun f regs coloc hq => hevo w hw _ hq)
+        (hna w p hw (by simp [hx]))
       rw [hwk w hw]; exact id
   · intro w q f regs hm
     obtain ⟨h1, h2, h3⟩ := h.cmds w q f regs (hcq w _ hm)
@@ -520,7 +697,6 @@ theorem queryTargets_spawning (a : Pid) : ∀ (ts : List Pid) (w : WorkerSt), (q
 
 def quietCmd : Cmd → Prop
   | .misc => True
-  | .deliver _ _ => True
   | .queryAwait _ _ => True
   | .updateAwait _ rs => ∀ t r, (t, some r) ∈ rs → ∃ v, r = .ok v
   | .getResult _ _ => True
@@ -534,14 +710,7 @@ theorem handleCmd_ctlSame (s : Sys) (i : Wid) (c : Cmd) (hq : quietCmd c) :
   | resume p fn => exact hq.elim
   | spawn p fn regs => exact hq.elim
   | notifySpawn caller newPid => exact hq.elim
-  | deliver t m =>
-    cases hx : (s.wk i).procs t with
-    | none => simp only [handleCmdWith, hx, setWk_wk, upd_same]; exact CtlSame.wakeSelecting _ t
-    | some x =>
-      simp only [handleCmdWith, hx, setWk_wk, upd_same]
-      exact (CtlSame.updProc (q := t) (y := x) (y' := { x with mailbox := x.mailbox ++ [m] })
-        (w' := { s.wk i with procs := upd (s.wk i).procs t (some { x with mailbox := x.mailbox ++ [m] }) }) rfl rfl hx rfl).trans
-        (CtlSame.wakeSelecting _ t)
+  | deliver t m => exact hq.elim
   | queryAwait a ts =>
     simp only [handleCmdWith, pushEvt_wk, setWk_wk, upd_same]
     exact CtlSame.of_procs (queryTargets_spec a ts (s.wk i)).1 (queryTargets_spawning a ts _)
@@ -590,7 +759,7 @@ theorem spair_head_notify {s : Sys} (h : SPair s) {w : Wid} {c q : Pid} {rest : 
   exact ⟨fun q' hm => by have := h1 _ hm; simp [isNotify] at this,
          fun f regs co hm => by have := h2 _ hm; simp [isSpawnEvt] at this⟩
 
-theorem KInv.results_ok {ρ : Nat → Nat → Nat} {ar : Nat → Nat} {s : Sys} (h : KInv ρ ar s) {t : Pid} {r : Res}
+theorem KInv.results_ok {ρ : Nat → Nat → Nat} {ar : Nat → Nat} {σ : Nat → List (Nat × Nat)} {s : Sys} (h : KInv ρ ar σ s) {t : Pid} {r : Res}
     (hr : HasRes s t r) : ∃ v, r = .ok v := by
   obtain ⟨w, hw⟩ := hr
   unfold WorkerSt.resultOf at hw
@@ -602,22 +771,91 @@ theorem KInv.results_ok {ρ : Nat → Nat → Nat} {ar : Nat → Nat} {s : Sys} 
     | err => exact absurd hw this
   · cases hw
 
+/-! ### the ghost history `appended` -/
+
+theorem envStep1_appended (combine) (s : Sys) (w : Wid) : (envStep1With combine s w).appended = s.appended := by
+  unfold envStep1With
+  split
+  · rfl
+  · rename_i e rest _
+    cases e with
+    | spawn c fn regs coloc => simp only [handleEventWith, handleSpawn]; split <;> rfl
+    | deliver t m => simp only [handleEventWith, handleDeliver]; split <;> rfl
+    | await a ts =>
+      simp only [handleEventWith, handleAwait]
+      split
+      · rfl
+      · generalize targetWorkers s.env.router ts = ws
+        have : ∀ (l : List Wid) (s0 : Sys) (g : Wid → Cmd), (l.foldl (fun acc w => acc.pushCmd w (g w)) s0).appended = s0.appended := by
+          intro l
+          induction l with
+          | nil => intro s0 g; rfl
+          | cons a l ih => intro s0 g; simp only [List.foldl_cons]; rw [ih]; rfl
+        exact this _ _ _
+    | procResults a rs =>
+      simp only [handleEventWith, handleProcResultsWith]
+      repeat' split
+      all_goals rfl
+    | resultResp req r => rfl
+
+theorem handleCmd_appended (R : Rules) (s : Sys) (i : Wid) (c : Cmd) :
+    (handleCmdWith R s i c).appended = s.appended ∨
+    ∃ t m x, c = .deliver t m ∧ (s.wk i).procs t = some x ∧ (handleCmdWith R s i c).appended = s.appended ++ [(t, m)] := by
+  cases c with
+  | deliver t m =>
+    cases hx : (s.wk i).procs t with
+    | none => left; simp only [handleCmdWith, hx]; rfl
+    | some x => right; exact ⟨t, m, x, rfl, hx, by simp only [handleCmdWith, hx]⟩
+  | _ => left; simp only [handleCmdWith] <;> (repeat' split) <;> rfl
+
+theorem napp_of_eq {s s' : Sys} (h : s'.appended = s.appended) (p : Pid) : napp s' p = napp s p := by
+  unfold napp; rw [h]
+
+theorem napp_snoc {s s' : Sys} {t : Pid} {m : Msg} (h : s'.appended = s.appended ++ [(t, m)]) (p : Pid) :
+    napp s' p = napp s p + (if t = p then 1 else 0) := by
+  unfold napp; rw [h, List.filter_append]
+  by_cases e : t = p <;> simp [e]
+
+theorem appKnown_step {s s' : Sys} (h : ∀ e ∈ s.appended, ∃ w, known s w e.1) (happ : s'.appended = s.appended)
+    (hk : ∀ w p, known s w p → known s' w p) : ∀ e ∈ s'.appended, ∃ w, known s' w e.1 := by
+  intro e he
+  rw [happ] at he
+  obtain ⟨w, hw⟩ := h e he
+  exact ⟨w, hk w _ hw⟩
+
+/-- the arrivals at the mailboxes of receiving processes follow the static streams `σ` -/
+def StreamOK (σ : Nat → List (Nat × Nat)) (s : Sys) : Prop :=
+  ∀ w p x, (s.wk w).procs p = some x → hasRecv s.prog x.fn = true →
+    ((s.appended.filter (fun e => e.1 = p)).map (fun e => e.2.key)) <+: σ x.fn
+
+theorem drop_of_prefix_snoc {α : Type} {l L : List α} {a : α} (h : l ++ [a] <+: L) :
+    L.drop l.length = a :: L.drop (l.length + 1) := by
+  obtain ⟨t, rfl⟩ := h
+  simp
+
 /-! ### the micro-steps -/
 
-theorem KInv.envStep1 {ρ : Nat → Nat → Nat} {ar : Nat → Nat} {s : Sys} (h : KInv ρ ar s) (w0 : Wid) :
-    KInv ρ ar (envStep1With Rules.current.combine s w0) := by
+theorem KInv.envStep1 {ρ : Nat → Nat → Nat} {ar : Nat → Nat} {σ : Nat → List (Nat × Nat)} {s : Sys} (h : KInv ρ ar σ s) (w0 : Wid) :
+    KInv ρ ar σ (envStep1With Rules.current.combine s w0) := by
   have ht : TInv (envStep1With Rules.current.combine s w0) := h.t.micro (.env w0)
   have hw : WInv (envStep1With Rules.current.combine s w0) := h.wi.micro (.env w0)
   have hwk := envStep1_wk Rules.current.combine s w0
   have hev := envStep1_evts Rules.current.combine s w0
   obtain ⟨hprog, hmono, hnew, hsp⟩ := envStep1_cmdSpec Rules.current.combine h.wi.si.r w0
+  have happ := envStep1_appended Rules.current.combine s w0
   generalize envStep1With Rules.current.combine s w0 = s' at *
   have hsid : ∀ q f, Sid s q f → Sid s' q f :=
     Sid.mono (fun w q y hy => ⟨y, by rw [hwk]; exact hy, rfl⟩) (fun w q f regs hm => Or.inl (hmono w _ hm))
-  refine ⟨ht, hw, by rw [hprog]; exact h.typing, ?_, ?_⟩
+  refine ⟨ht, hw, by rw [hprog]; exact h.typing, ?_, ?_, ?_⟩
+  rotate_left 2
+  · intro e he
+    rw [happ] at he
+    obtain ⟨w, hk⟩ := h.appKnown e he
+    exact ⟨w, by unfold known; rw [hwk]; exact hk⟩
   · intro w p x hx
     rw [hwk] at hx
     refine (h.procs w p x hx).transfer hprog hsid rfl (by rw [hwk]; exact id) ?_ (fun f regs co hq => hev w _ hq)
+      (napp_of_eq happ p)
     intro q hq
     rcases hnew w _ hq with h1 | h1 | ⟨c0, f, regs, coloc, rest, hq0, h1 | ⟨h1, rfl⟩⟩
     · exact Or.inl h1
@@ -648,21 +886,22 @@ theorem KInv.envStep1 {ρ : Nat → Nat → Nat} {ar : Nat → Nat} {s : Sys} (h
       simpa [Proc.reg, hb] using this
     · cases h1
 
-theorem KInv.tick {ρ : Nat → Nat → Nat} {ar : Nat → Nat} {s : Sys} (h : KInv ρ ar s) (ms : Nat) :
-    KInv ρ ar { s with now := s.now + ms } := by
+theorem KInv.tick {ρ : Nat → Nat → Nat} {ar : Nat → Nat} {σ : Nat → List (Nat × Nat)} {s : Sys} (h : KInv ρ ar σ s) (ms : Nat) :
+    KInv ρ ar σ { s with now := s.now + ms } := by
   have ht : TInv { s with now := s.now + ms } := h.t.micro (.tick ms)
   have hw : WInv { s with now := s.now + ms } := h.wi.micro (.tick ms)
-  refine ⟨ht, hw, h.typing, ?_, ?_⟩
+  refine ⟨ht, hw, h.typing, ?_, ?_, h.appKnown⟩
   · intro w p x hx
-    exact (h.procs w p x hx).transfer rfl (fun _ _ h => h) rfl id (fun q hq => Or.inl hq) (fun _ _ _ hq => hq)
+    exact (h.procs w p x hx).transfer rfl (fun _ _ h => h) rfl id (fun q hq => Or.inl hq) (fun _ _ _ hq => hq) rfl
   · exact h.cmds
 
-theorem KInv.checkStep {ρ : Nat → Nat → Nat} {ar : Nat → Nat} {s : Sys} (h : KInv ρ ar s) (i : Wid) (ordE : List Pid) :
-    KInv ρ ar (QM.Sys.checkStep s i ordE) := by
+theorem KInv.checkStep {ρ : Nat → Nat → Nat} {ar : Nat → Nat} {σ : Nat → List (Nat × Nat)} {s : Sys} (h : KInv ρ ar σ s) (i : Wid) (ordE : List Pid) :
+    KInv ρ ar σ (QM.Sys.checkStep s i ordE) := by
   have ht : TInv (QM.Sys.checkStep s i ordE) := h.t.micro (.check i ordE)
   have hw : WInv (QM.Sys.checkStep s i ordE) := h.wi.micro (.check i ordE)
   have hc := CheckRel.checkStep s i ordE
   have he := CheckEv.checkStep s i ordE
+  have happ := (Shape.checkStep s i ordE).appended
   generalize QM.Sys.checkStep s i ordE = s' at *
   obtain ⟨evs, hevs, hck⟩ := he.evs
   have hold : ∀ w p f regs co, Evt.spawn p f regs co ∈ s'.evtQ w → Evt.spawn p f regs co ∈ s.evtQ w := by
@@ -682,11 +921,17 @@ theorem KInv.checkStep {ρ : Nat → Nat → Nat} {ar : Nat → Nat} {s : Sys} (
     · rw [hc.wkOther w e]; exact ⟨rfl, rfl⟩
   have hsid : ∀ q f, Sid s q f → Sid s' q f :=
     Sid.mono (fun w q y hy => ⟨y, by rw [(hprocs w).1]; exact hy, rfl⟩) (fun w q f regs hm => Or.inl (by rw [hc.cmdQ]; exact hm))
-  refine ⟨ht, hw, by rw [he.prog]; exact h.typing, ?_, ?_⟩
+  refine ⟨ht, hw, by rw [he.prog]; exact h.typing, ?_, ?_, ?_⟩
+  rotate_left 2
+  · intro e he'
+    rw [happ] at he'
+    obtain ⟨w, hk⟩ := h.appKnown e he'
+    exact ⟨w, by unfold known; rw [(hprocs w).1]; exact hk⟩
   · intro w p x hx
     rw [(hprocs w).1] at hx
     exact (h.procs w p x hx).transfer he.prog hsid rfl (by rw [(hprocs w).2]; exact id)
       (fun q hq => Or.inl (by rw [hc.cmdQ] at hq; exact hq)) (fun f regs co hq => hold w p f regs co hq)
+      (napp_of_eq happ p)
   · intro w q f regs hm
     rw [hc.cmdQ] at hm
     obtain ⟨a1, a2, a3⟩ := h.cmds w q f regs hm
@@ -712,25 +957,29 @@ theorem sid_cmdStep {s s' : Sys} {i : Wid} {c : Cmd} {rest : List Cmd} (hq : s.c
       · exact Or.inl (by rw [hcq]; simp [h1])
     · exact Or.inl (by rw [hcq]; simp [upd_apply, e, hm])
 
-theorem KInv.cmdStep1 {ρ : Nat → Nat → Nat} {ar : Nat → Nat} {s : Sys} (h : KInv ρ ar s) (i : Wid) :
-    KInv ρ ar (cmdStep1With Rules.current s i) := by
+theorem handleCmd_ctlSame_drop (s : Sys) (i : Wid) (t : Pid) (m : Msg) (hx : (s.wk i).procs t = none) :
+    CtlSame (s.wk i) ((handleCmdWith Rules.current s i (.deliver t m)).wk i) := by
+  simp only [handleCmdWith, hx, setWk_wk, upd_same]; exact CtlSame.wakeSelecting _ t
+
+theorem KInv.cmdStep1 {ρ : Nat → Nat → Nat} {ar : Nat → Nat} {σ : Nat → List (Nat × Nat)} {s : Sys} (h : KInv ρ ar σ s) (i : Wid)
+    (hsd : StreamOK σ (cmdStep1With Rules.current s i)) :
+    KInv ρ ar σ (cmdStep1With Rules.current s i) := by
   have ht : TInv (cmdStep1With Rules.current s i) := h.t.micro (.cmd i)
   have hw : WInv (cmdStep1With Rules.current s i) := h.wi.micro (.cmd i)
-  revert ht hw
+  revert ht hw hsd
   unfold cmdStep1With
   split
-  · intro _ _; exact h
+  · intro _ _ _; exact h
   · rename_i c rest hq
-    intro ht hw
+    intro hsd ht hw
     have hf := handleCmd_frame Rules.current { s with cmdQ := upd s.cmdQ i rest } i c
     have hne := handleCmd_evts_nospawn Rules.current { s with cmdQ := upd s.cmdQ i rest } i c
+    have happc := handleCmd_appended Rules.current { s with cmdQ := upd s.cmdQ i rest } i c
     have hok := h.wi.si.r.cmds i c (by rw [hq]; simp)
     have hhead : c ∈ s.cmdQ i := by rw [hq]; simp
     obtain ⟨hcq, _, hprog, _, _, hoth⟩ := hf
     have hcq' : ∀ w c', c' ∈ (handleCmdWith Rules.current { s with cmdQ := upd s.cmdQ i rest } i c).cmdQ w → c' ∈ s.cmdQ w := by
       intro w c' hc'; rw [hcq] at hc'; exact mem_upd_tail hq hc'
-    have hcqi : (handleCmdWith Rules.current { s with cmdQ := upd s.cmdQ i rest } i c).cmdQ i = rest := by
-      rw [hcq]; simp
     have hevo : ∀ k, k ≠ i → ∀ e, e ∈ (handleCmdWith Rules.current { s with cmdQ := upd s.cmdQ i rest } i c).evtQ k → e ∈ s.evtQ k := by
       intro k hk e he; rw [(hoth k hk).2] at he; exact he
     have hwk : ∀ k, k ≠ i → (handleCmdWith Rules.current { s with cmdQ := upd s.cmdQ i rest } i c).wk k = s.wk k :=
@@ -741,34 +990,125 @@ theorem KInv.cmdStep1 {ρ : Nat → Nat → Nat} {ar : Nat → Nat} {s : Sys} (h
       rcases hne i _ hm with h1 | h1
       · exact h1
       · exact absurd rfl (h1 p f regs co)
-    by_cases hquiet : quietCmd c
+    -- processes persist: from the per-case description of worker `i`
+    have hkn : ∀ {s' : Sys}, (∀ k, k ≠ i → s'.wk k = s.wk k) →
+        (∀ p x, (s.wk i).procs p = some x → ∃ x', (s'.wk i).procs p = some x' ∧ x'.fn = x.fn) →
+        ∀ w p, known s w p → known s' w p := by
+      intro s' h1 h2 w p hk
+      unfold known at hk ⊢
+      by_cases e : w = i
+      · subst e
+        cases hp : (s.wk w).procs p with
+        | none => rw [hp] at hk; cases hk
+        | some x => obtain ⟨x', hx', _⟩ := h2 p x hp; rw [hx']; rfl
+      · rw [h1 w e]; exact hk
+    by_cases hquiet : quietCmd c ∨ ∃ t m, c = .deliver t m ∧ (s.wk i).procs t = none
     · -- commands that leave the control part alone
-      have hcs : CtlSame (s.wk i) ((handleCmdWith Rules.current { s with cmdQ := upd s.cmdQ i rest } i c).wk i) :=
-        handleCmd_ctlSame { s with cmdQ := upd s.cmdQ i rest } i c hquiet
+      have hcs : CtlSame (s.wk i) ((handleCmdWith Rules.current { s with cmdQ := upd s.cmdQ i rest } i c).wk i) := by
+        rcases hquiet with hq1 | ⟨t, m, rfl, hnone⟩
+        · exact handleCmd_ctlSame { s with cmdQ := upd s.cmdQ i rest } i c hq1
+        · exact handleCmd_ctlSame_drop { s with cmdQ := upd s.cmdQ i rest } i t m hnone
+      have hnsp : ∀ q f regs, c ≠ .spawn q f regs := by
+        intro q f regs e; subst e
+        rcases hquiet with hq1 | ⟨_, _, e, _⟩
+        · exact hq1.elim
+        · cases e
+      have happ : (handleCmdWith Rules.current { s with cmdQ := upd s.cmdQ i rest } i c).appended = s.appended := by
+        rcases happc with h1 | ⟨t, m, x, e, hx, _⟩
+        · exact h1
+        · subst e
+          rcases hquiet with hq1 | ⟨_, _, e, hnone⟩
+          · exact hq1.elim
+          · simp only [Cmd.deliver.injEq] at e; obtain ⟨rfl, rfl⟩ := e
+            have hx' : (s.wk i).procs t = some x := hx
+            rw [hnone] at hx'; cases hx'
       generalize handleCmdWith Rules.current { s with cmdQ := upd s.cmdQ i rest } i c = s' at *
-      have hsid : ∀ q f, Sid s q f → Sid s' q f := by
-        apply sid_cmdStep hq hcq hwk
-        · intro p x hx
-          obtain ⟨x', hx', hc⟩ := hcs.fwd hx
-          exact ⟨x', hx', (ctl_eq hc).1⟩
-        · intro q f regs e; subst e; exact hquiet.elim
-      obtain ⟨k1, k2⟩ := h.workerFrame i hprog hwk hcq' hevo hsid (by
+      have hfn : ∀ p x, (s.wk i).procs p = some x → ∃ x', (s'.wk i).procs p = some x' ∧ x'.fn = x.fn := by
+        intro p x hx
+        obtain ⟨x', hx', hc⟩ := hcs.fwd hx
+        exact ⟨x', hx', (ctl_eq hc).1⟩
+      have hsid : ∀ q f, Sid s q f → Sid s' q f :=
+        sid_cmdStep hq hcq hwk hfn (fun q f regs e => absurd e (hnsp q f regs))
+      obtain ⟨k1, k2⟩ := h.workerFrame i hprog hwk hcq' hevo hsid (fun _ p _ _ => napp_of_eq happ p) (by
         intro p x' hx'
         obtain ⟨x, hx, hc⟩ := hcs.back hx'
         exact (h.procs i p x hx).transfer hprog hsid hc (by rw [hcs.1]; exact id)
-          (fun q hm => Or.inl (hcq' i _ hm)) (fun f regs co hm => hspold p f regs co hm))
-      exact ⟨ht, hw, by rw [hprog]; exact h.typing, k1, k2⟩
+          (fun q hm => Or.inl (hcq' i _ hm)) (fun f regs co hm => hspold p f regs co hm) (napp_of_eq happ p))
+      exact ⟨ht, hw, by rw [hprog]; exact h.typing, k1, k2, appKnown_step h.appKnown happ (hkn hwk hfn)⟩
     · cases c with
-      | misc => exact absurd trivial hquiet
-      | deliver t m => exact absurd trivial hquiet
-      | queryAwait a ts => exact absurd trivial hquiet
-      | getResult req p => exact absurd trivial hquiet
+      | misc => exact absurd (Or.inl trivial) hquiet
+      | queryAwait a ts => exact absurd (Or.inl trivial) hquiet
+      | getResult req p => exact absurd (Or.inl trivial) hquiet
       | updateAwait a rs =>
-        exfalso; apply hquiet
+        exfalso; apply hquiet; left
         intro t r hm
         exact h.results_ok (h.t.core.updc i a rs t r hhead hm)
       | start p => exact hok.elim
       | resume p fn => exact hok.elim
+      | deliver t m =>
+        cases hxt : (s.wk i).procs t with
+        | none => exact absurd (Or.inr ⟨t, m, rfl, hxt⟩) hquiet
+        | some x0 =>
+          have hpx := h.procs i t x0 hxt
+          have hpr : ((handleCmdWith Rules.current { s with cmdQ := upd s.cmdQ i rest } i (.deliver t m)).wk i).procs =
+                upd (s.wk i).procs t (some { x0 with mailbox := x0.mailbox ++ [m] }) ∧
+              ((handleCmdWith Rules.current { s with cmdQ := upd s.cmdQ i rest } i (.deliver t m)).wk i).spawning = (s.wk i).spawning := by
+            simp only [handleCmdWith, hxt, setWk_wk, upd_same]
+            unfold WorkerSt.wakeSelecting
+            split <;> exact ⟨rfl, rfl⟩
+          have happ : (handleCmdWith Rules.current { s with cmdQ := upd s.cmdQ i rest } i (.deliver t m)).appended = s.appended ++ [(t, m)] := by
+            simp only [handleCmdWith, hxt]
+          generalize handleCmdWith Rules.current { s with cmdQ := upd s.cmdQ i rest } i (.deliver t m) = s' at *
+          obtain ⟨hpr1, hpr2⟩ := hpr
+          have hfn : ∀ p x, (s.wk i).procs p = some x → ∃ x', (s'.wk i).procs p = some x' ∧ x'.fn = x.fn := by
+            intro p y hy
+            by_cases hpt : p = t
+            · subst hpt; rw [hxt] at hy; simp only [Option.some.injEq] at hy; subst hy
+              rw [hpr1]; exact ⟨_, upd_same _ _ _, rfl⟩
+            · exact ⟨y, by rw [hpr1]; simp [hpt, hy], rfl⟩
+          have hsid : ∀ q f, Sid s q f → Sid s' q f :=
+            sid_cmdStep hq hcq hwk hfn (fun q f regs e => by cases e)
+          have hnat : ∀ p, p ≠ t → napp s' p = napp s p := by
+            intro p hp; rw [napp_snoc happ]; simp [Ne.symm hp]
+          obtain ⟨k1, k2⟩ := h.workerFrame i hprog hwk hcq' hevo hsid (by
+            intro w p hwi hk
+            apply hnat
+            intro e; subst e
+            have r1 := h.wi.si.r.placed w p (by unfold known; exact hk)
+            have r2 := h.wi.si.r.placed i p (by unfold known; rw [hxt]; rfl)
+            rw [r1] at r2; simp only [Option.some.injEq] at r2; exact hwi r2) (by
+            intro p x' hx'
+            rw [hpr1] at hx'
+            by_cases hpt : p = t
+            · subst hpt
+              simp only [upd_same, Option.some.injEq] at hx'; subst hx'
+              refine hpx.transfer' hprog hsid rfl rfl rfl rfl rfl rfl rfl (by rw [hpr2]; exact id)
+                (fun q hm => Or.inl (hcq' i _ hm)) (fun f regs co hm => hspold p f regs co hm) ?_
+              obtain ⟨rem, htr, hrem⟩ := hpx.trace
+              refine ⟨rem, by rw [hprog]; exact htr, ?_⟩
+              intro hr
+              have hr0 : hasRecv s.prog x0.fn = true := by rw [← hprog]; exact hr
+              have hpre := hsd i p { x0 with mailbox := x0.mailbox ++ [m] } (by rw [hpr1]; exact upd_same _ _ _) hr
+              rw [happ, List.filter_append, List.map_append] at hpre
+              simp only [List.filter_cons, decide_true, if_true, List.filter_nil, List.map_cons, List.map_nil] at hpre
+              have hd := drop_of_prefix_snoc hpre
+              simp only [List.length_map] at hd
+              have hn : napp s' p = napp s p + 1 := by rw [napp_snoc happ]; simp
+              show rem = (x0.mailbox ++ [m]).map Msg.key ++ (σ x0.fn).drop (napp s' p)
+              rw [hn, hrem hr0]
+              unfold napp
+              rw [hd]; simp
+            · simp only [upd_apply, hpt, if_false] at hx'
+              exact (h.procs i p x' hx').transfer hprog hsid rfl (by rw [hpr2]; exact id)
+                (fun q' hm => Or.inl (hcq' i _ hm)) (fun f' regs' co hm => hspold p f' regs' co hm) (hnat p hpt))
+          refine ⟨ht, hw, by rw [hprog]; exact h.typing, k1, k2, ?_⟩
+          intro e he
+          rw [happ] at he
+          rcases List.mem_append.mp he with h1 | h1
+          · obtain ⟨w, hk⟩ := h.appKnown e h1
+            exact ⟨w, hkn hwk hfn w _ hk⟩
+          · simp only [List.mem_singleton] at h1; subst h1
+            exact ⟨i, by unfold known; rw [hpr1]; simp⟩
       | spawn q f regs =>
         obtain ⟨hrq, hflt, _⟩ := hok
         have hfresh : ¬ known s i q := (h.wi.si.fresh i).2 q (mem_creates.mpr ⟨f, regs, hhead⟩)
@@ -776,22 +1116,37 @@ theorem KInv.cmdStep1 {ρ : Nat → Nat → Nat} {ar : Nat → Nat} {s : Sys} (h
           cases hp : (s.wk i).procs q with
           | none => rfl
           | some y => exact absurd (by simp [known, hp]) hfresh
+        have hn0 : napp s q = 0 := by
+          unfold napp
+          rw [List.length_eq_zero_iff, List.filter_eq_nil_iff]
+          intro e he heq
+          have heq' : e.1 = q := by simpa using heq
+          obtain ⟨w, hk⟩ := h.appKnown e he
+          rw [heq'] at hk
+          have r1 := h.wi.si.r.placed w q hk
+          rw [hrq] at r1; simp only [Option.some.injEq] at r1; subst r1
+          exact hfresh hk
         have hpr : ((handleCmdWith Rules.current { s with cmdQ := upd s.cmdQ i rest } i (.spawn q f regs)).wk i).procs =
               upd (s.wk i).procs q (some (Proc.fresh f (q :: regs))) ∧
             ((handleCmdWith Rules.current { s with cmdQ := upd s.cmdQ i rest } i (.spawn q f regs)).wk i).spawning = (s.wk i).spawning := by
           simp [handleCmdWith, Nat.not_le.mpr hflt, WorkerSt.setProc]
+        have happ : (handleCmdWith Rules.current { s with cmdQ := upd s.cmdQ i rest } i (.spawn q f regs)).appended = s.appended := by
+          rcases happc with h1 | ⟨_, _, _, e, _⟩
+          · exact h1
+          · cases e
         obtain ⟨c1, c2, c3⟩ := h.cmds i q f regs hhead
         generalize handleCmdWith Rules.current { s with cmdQ := upd s.cmdQ i rest } i (.spawn q f regs) = s' at *
         obtain ⟨hpr1, hpr2⟩ := hpr
+        have hfn : ∀ p x, (s.wk i).procs p = some x → ∃ x', (s'.wk i).procs p = some x' ∧ x'.fn = x.fn := by
+          intro p x hx
+          have hpq : p ≠ q := by intro e; subst e; rw [hnone] at hx; cases hx
+          exact ⟨x, by rw [hpr1]; simp [hpq, hx], rfl⟩
         have hsid : ∀ q' f', Sid s q' f' → Sid s' q' f' := by
-          apply sid_cmdStep hq hcq hwk
-          · intro p x hx
-            have hpq : p ≠ q := by intro e; subst e; rw [hnone] at hx; cases hx
-            exact ⟨x, by rw [hpr1]; simp [hpq, hx], rfl⟩
-          · intro q' f' regs' e
-            simp only [Cmd.spawn.injEq] at e; obtain ⟨rfl, rfl, rfl⟩ := e
-            rw [hpr1]; exact ⟨_, upd_same _ _ _, rfl⟩
-        obtain ⟨k1, k2⟩ := h.workerFrame i hprog hwk hcq' hevo hsid (by
+          apply sid_cmdStep hq hcq hwk hfn
+          intro q' f' regs' e
+          simp only [Cmd.spawn.injEq] at e; obtain ⟨rfl, rfl, rfl⟩ := e
+          rw [hpr1]; exact ⟨_, upd_same _ _ _, rfl⟩
+        obtain ⟨k1, k2⟩ := h.workerFrame i hprog hwk hcq' hevo hsid (fun _ p _ _ => napp_of_eq happ p) (by
           intro p x' hx'
           rw [hpr1] at hx'
           by_cases hpq : p = q
@@ -800,7 +1155,10 @@ theorem KInv.cmdStep1 {ρ : Nat → Nat → Nat} {ar : Nat → Nat} {s : Sys} (h
             have hnk : p ∉ (s.wk i).spawning := fun hin => by
               obtain ⟨y, hy, _⟩ := (h.wi.si.sched i).live p (Or.inr (Or.inl hin))
               rw [hnone] at hy; cases hy
-            refine ⟨by simp [Proc.fresh], rfl, Nat.zero_le _, by simp [Proc.fresh], Trace.zero _, ?_, ?_, by simp [Proc.fresh], ?_, ?_⟩
+            refine ⟨by simp [Proc.fresh], rfl, Nat.zero_le _, by simp [Proc.fresh], ?_, ?_, ?_, by simp [Proc.fresh], ?_, ?_⟩
+            · refine ⟨σ f, Trace.zero f, fun _ => ?_⟩
+              show σ f = ([] : List Msg).map Msg.key ++ (σ f).drop (napp s' p)
+              rw [napp_of_eq happ, hn0]; simp
             · show (p :: regs).length = base s'.prog ar f 0
               simp [base, nspawn, c1]; omega
             · intro r hr
@@ -819,8 +1177,8 @@ theorem KInv.cmdStep1 {ρ : Nat → Nat → Nat} {ar : Nat → Nat} {s : Sys} (h
               exact absurd (spair_evt_parked h.wi.pair (hspold p f' regs' co hm)) hnk
           · simp only [upd_apply, hpq, if_false] at hx'
             exact (h.procs i p x' hx').transfer hprog hsid rfl (by rw [hpr2]; exact id)
-              (fun q' hm => Or.inl (hcq' i _ hm)) (fun f' regs' co hm => hspold p f' regs' co hm))
-        exact ⟨ht, hw, by rw [hprog]; exact h.typing, k1, k2⟩
+              (fun q' hm => Or.inl (hcq' i _ hm)) (fun f' regs' co hm => hspold p f' regs' co hm) (napp_of_eq happ p))
+        exact ⟨ht, hw, by rw [hprog]; exact h.typing, k1, k2, appKnown_step h.appKnown happ (hkn hwk hfn)⟩
       | notifySpawn caller q =>
         have hpark := spair_notify_parked h.wi.pair hhead
         obtain ⟨x, hx, hxres⟩ := (h.wi.si.sched i).live caller (Or.inr (Or.inl hpark))
@@ -834,18 +1192,22 @@ theorem KInv.cmdStep1 {ρ : Nat → Nat → Nat} {ar : Nat → Nat} {s : Sys} (h
             (handleCmdWith Rules.current { s with cmdQ := upd s.cmdQ i rest } i (.notifySpawn caller q)).evtQ = s.evtQ := by
           simp only [handleCmdWith, hx]
           split <;> simp
+        have happ : (handleCmdWith Rules.current { s with cmdQ := upd s.cmdQ i rest } i (.notifySpawn caller q)).appended = s.appended := by
+          rcases happc with h1 | ⟨_, _, _, e, _⟩
+          · exact h1
+          · cases e
         generalize handleCmdWith Rules.current { s with cmdQ := upd s.cmdQ i rest } i (.notifySpawn caller q) = s' at *
         obtain ⟨hpr1, hpr2, hpr3⟩ := hpr
-        have hsid : ∀ q' f', Sid s q' f' → Sid s' q' f' := by
-          apply sid_cmdStep hq hcq hwk
-          · intro p y hy
-            by_cases hpc : p = caller
-            · subst hpc; rw [hx] at hy; simp only [Option.some.injEq] at hy; subst hy
-              rw [hpr1]; exact ⟨_, upd_same _ _ _, rfl⟩
-            · exact ⟨y, by rw [hpr1]; simp [hpc, hy], rfl⟩
-          · intro q' f' regs' e; cases e
+        have hfn : ∀ p y, (s.wk i).procs p = some y → ∃ y', (s'.wk i).procs p = some y' ∧ y'.fn = y.fn := by
+          intro p y hy
+          by_cases hpc : p = caller
+          · subst hpc; rw [hx] at hy; simp only [Option.some.injEq] at hy; subst hy
+            rw [hpr1]; exact ⟨_, upd_same _ _ _, rfl⟩
+          · exact ⟨y, by rw [hpr1]; simp [hpc, hy], rfl⟩
+        have hsid : ∀ q' f', Sid s q' f' → Sid s' q' f' :=
+          sid_cmdStep hq hcq hwk hfn (fun q' f' regs' e => by cases e)
         obtain ⟨t1, t2, t3, t4⟩ := h.typing.acts _ _ _ hsc
-        obtain ⟨k1, k2⟩ := h.workerFrame i hprog hwk hcq' hevo hsid (by
+        obtain ⟨k1, k2⟩ := h.workerFrame i hprog hwk hcq' hevo hsid (fun _ p _ _ => napp_of_eq happ p) (by
           intro p x' hx'
           rw [hpr1] at hx'
           by_cases hpc : p = caller
@@ -853,7 +1215,9 @@ theorem KInv.cmdStep1 {ρ : Nat → Nat → Nat} {ar : Nat → Nat} {s : Sys} (h
             simp only [upd_same, Option.some.injEq] at hx'; subst hx'
             refine ⟨by simp [hxres], hpx.nofail, ?_, by simp [hxres], ?_, ?_, ?_, by simp, ?_, ?_⟩
             · rw [hprog]; exact lt_of_getElem?_some hsc
-            · rw [hprog]; exact Trace.spawn _ _ _ f pass hpx.trace hsc
+            · obtain ⟨rem, htr, hrem⟩ := hpx.trace
+              refine ⟨rem, by rw [hprog]; exact Trace.spawn _ _ _ _ f pass htr hsc, ?_⟩
+              rw [hprog, napp_of_eq happ]; exact hrem
             · show (x.regs ++ [q]).length = base s'.prog ar x.fn (x.pc + 1)
               rw [hprog]; unfold base; rw [nspawn_take_succ hsc]
               have := hpx.rlen; unfold base at this
@@ -874,14 +1238,14 @@ theorem KInv.cmdStep1 {ρ : Nat → Nat → Nat} {ar : Nat → Nat} {s : Sys} (h
           · simp only [upd_apply, hpc, if_false] at hx'
             exact (h.procs i p x' hx').transfer hprog hsid rfl
               (by rw [hpr2]; intro hin; exact mem_serase.mpr ⟨hin, hpc⟩)
-              (fun q' hm => Or.inl (hcq' i _ hm)) (fun f' regs' co hm => hspold p f' regs' co hm))
-        exact ⟨ht, hw, by rw [hprog]; exact h.typing, k1, k2⟩
+              (fun q' hm => Or.inl (hcq' i _ hm)) (fun f' regs' co hm => hspold p f' regs' co hm) (napp_of_eq happ p))
+        exact ⟨ht, hw, by rw [hprog]; exact h.typing, k1, k2, appKnown_step h.appKnown happ (hkn hwk hfn)⟩
 
 /-! ### executor step -/
 
-theorem KInv.runnable {ρ : Nat → Nat → Nat} {ar : Nat → Nat} {s : Sys} (h : KInv ρ ar s) {i : Wid} {cur : Pid} {x : Proc}
+theorem KInv.runnable {ρ : Nat → Nat → Nat} {ar : Nat → Nat} {σ : Nat → List (Nat × Nat)} {s : Sys} (h : KInv ρ ar σ s) {i : Wid} {cur : Pid} {x : Proc}
     (hx : (s.wk i).procs cur = some x) (hres : x.result = none) (hiss : x.spawnIssued = false) :
-    Runnable s.prog ρ ar x := by
+    Runnable s.prog ρ ar σ ((σ x.fn).drop (napp s cur)) x := by
   have hpx := h.procs i cur x hx
   refine ⟨hres, hiss, hpx.nofail, hpx.pcle, hpx.trace, hpx.rlen, ?_⟩
   intro r v hr hm
@@ -896,20 +1260,21 @@ theorem KInv.runnable {ρ : Nat → Nat → Nat} {ar : Nat → Nat} {s : Sys} (h
       have := hpx.rsid r hr
       rw [← hreg] at this
       exact this.proc_fn h.wi.si hy
-    refine ⟨y.acc, ?_, ?_⟩
+    obtain ⟨remy, htry, _⟩ := hpy.trace
+    refine ⟨y.acc, remy, ?_, ?_⟩
     · rw [f1, ← hfn]; rfl
-    · have := hpy.trace; rw [f2, hfn] at this; exact this
+    · rw [f2, hfn] at htry; exact htry
   · cases hw
 
-theorem PInv.afterSlice {ρ : Nat → Nat → Nat} {ar : Nat → Nat} {s s' : Sys} {i : Wid} {cur : Pid} {x x' x'' : Proc} {out : Outcome}
-    (hpx : PInv ρ ar s i cur x) (hok : SliceOK s.prog ρ x (x', out)) (hprog : s'.prog = s.prog)
-    (hsid : ∀ q f, Sid s q f → Sid s' q f)
+theorem PInv.afterSlice {ρ : Nat → Nat → Nat} {ar : Nat → Nat} {σ : Nat → List (Nat × Nat)} {s s' : Sys} {i : Wid} {cur : Pid} {x x' x'' : Proc} {out : Outcome}
+    (hpx : PInv ρ ar σ s i cur x) (hok : SliceOK s.prog ρ σ ((σ x.fn).drop (napp s cur)) x (x', out)) (hprog : s'.prog = s.prog)
+    (hsid : ∀ q f, Sid s q f → Sid s' q f) (happ : napp s' cur = napp s cur)
     (e1 : x''.fn = x'.fn) (e2 : x''.pc = x'.pc) (e3 : x''.regs = x'.regs) (e4 : x''.acc = x'.acc)
-    (e5 : x''.spawnIssued = x'.spawnIssued) (e7 : x''.awaitFailed = x'.awaitFailed)
+    (e5 : x''.spawnIssued = x'.spawnIssued) (e7 : x''.awaitFailed = x'.awaitFailed) (e8 : x''.mailbox = x'.mailbox)
     (e6 : x''.result = none ∨ (out = .done ∧ x''.result = some (.ok x'.value)))
     (hnotif : ∀ q, Cmd.notifySpawn cur q ∉ s'.cmdQ i)
     (hspev : ∀ f regs co, Evt.spawn cur f regs co ∈ s'.evtQ i → out = .spawn f regs)
-    (hpark : ∀ f regs, out = .spawn f regs → cur ∈ (s'.wk i).spawning) : PInv ρ ar s' i cur x'' := by
+    (hpark : ∀ f regs, out = .spawn f regs → cur ∈ (s'.wk i).spawning) : PInv ρ ar σ s' i cur x'' := by
   have hfn : x''.fn = x.fn := e1.trans hok.fn
   have hregs : x''.regs = x.regs := e3.trans hok.regs
   have ev : x''.value = x'.value := by simp [Proc.value, e1, e4]
@@ -924,7 +1289,9 @@ theorem PInv.afterSlice {ρ : Nat → Nat → Nat} {ar : Nat → Nat} {s s' : Sy
     · rw [e] at hv; simp only [Option.some.injEq, Res.ok.injEq] at hv
       refine ⟨by rw [ev]; exact hv.symm, by rw [e2, hfn, hprog]; exact hok.done hd, ?_⟩
       rw [e5]; exact hok.other (by intro f regs; rw [hd]; simp)
-  · rw [hfn, e2, e4, hprog]; exact hok.trace
+  · obtain ⟨rem, htr, hrem⟩ := hok.trace
+    refine ⟨rem, by rw [e1, e2, e4, hprog]; exact htr, ?_⟩
+    rw [e1, e8, hprog, happ, hok.fn]; rw [hok.fn] at hrem; exact hrem
   · rw [hregs, hfn, e2, hprog, hpx.rlen]; unfold base; rw [hok.nsp]
   · intro r hr
     have hr' : r < x.regs.length := hregs ▸ hr
@@ -954,12 +1321,12 @@ theorem finish_ctl (w : WorkerSt) (cur : Pid) (x : Proc) (ordQ : List Pid) (hne 
   dsimp only
   exact CtlSame.foldl _ (fun w' a => CtlSame.notifyResultOk w' a cur x.value) _ _
 
-theorem KInv.execFrame {ρ : Nat → Nat → Nat} {ar : Nat → Nat} {s s' : Sys} (h : KInv ρ ar s) (ht : TInv s') (hw : WInv s')
+theorem KInv.execFrame {ρ : Nat → Nat → Nat} {ar : Nat → Nat} {σ : Nat → List (Nat × Nat)} {s s' : Sys} (h : KInv ρ ar σ s) (ht : TInv s') (hw : WInv s')
     (i : Wid) (hprog : s'.prog = s.prog) (hcmd : s'.cmdQ = s.cmdQ) (hwk : ∀ k, k ≠ i → s'.wk k = s.wk k)
-    (hevo : ∀ k, k ≠ i → ∀ e, e ∈ s'.evtQ k → e ∈ s.evtQ k)
+    (hevo : ∀ k, k ≠ i → ∀ e, e ∈ s'.evtQ k → e ∈ s.evtQ k) (happ : s'.appended = s.appended)
     (hg : (∀ p x, (s.wk i).procs p = some x → ∃ x', (s'.wk i).procs p = some x' ∧ x'.fn = x.fn) ∧
-      ((∀ q f, Sid s q f → Sid s' q f) → ∀ p x', (s'.wk i).procs p = some x' → PInv ρ ar s' i p x')) :
-    KInv ρ ar s' := by
+      ((∀ q f, Sid s q f → Sid s' q f) → ∀ p x', (s'.wk i).procs p = some x' → PInv ρ ar σ s' i p x')) :
+    KInv ρ ar σ s' := by
   obtain ⟨hfn, hpi⟩ := hg
   have hsid : ∀ q f, Sid s q f → Sid s' q f := by
     apply Sid.mono
@@ -968,21 +1335,31 @@ theorem KInv.execFrame {ρ : Nat → Nat → Nat} {ar : Nat → Nat} {s s' : Sys
       · subst e; exact hfn q y hy
       · rw [hwk w e]; exact ⟨y, hy, rfl⟩
     · intro w q f regs hm; exact Or.inl (by rw [hcmd]; exact hm)
-  obtain ⟨k1, k2⟩ := h.workerFrame i hprog hwk (fun w c hc => by rw [hcmd] at hc; exact hc) hevo hsid (hpi hsid)
-  exact ⟨ht, hw, by rw [hprog]; exact h.typing, k1, k2⟩
+  obtain ⟨k1, k2⟩ := h.workerFrame i hprog hwk (fun w c hc => by rw [hcmd] at hc; exact hc) hevo hsid
+    (fun _ p _ _ => napp_of_eq happ p) (hpi hsid)
+  refine ⟨ht, hw, by rw [hprog]; exact h.typing, k1, k2, appKnown_step h.appKnown happ ?_⟩
+  intro w p hk
+  unfold known at hk ⊢
+  by_cases e : w = i
+  · subst e
+    cases hp : (s.wk w).procs p with
+    | none => rw [hp] at hk; cases hk
+    | some x => obtain ⟨x', hx', _⟩ := hfn p x hp; rw [hx']; rfl
+  · rw [hwk w e]; exact hk
 
 def AfterRel (x' x'' : Proc) (out : Outcome) : Prop :=
   x''.fn = x'.fn ∧ x''.pc = x'.pc ∧ x''.regs = x'.regs ∧ x''.acc = x'.acc ∧ x''.spawnIssued = x'.spawnIssued ∧
-  x''.awaitFailed = x'.awaitFailed ∧ (x''.result = none ∨ (out = .done ∧ x''.result = some (.ok x'.value)))
+  x''.awaitFailed = x'.awaitFailed ∧ x''.mailbox = x'.mailbox ∧
+  (x''.result = none ∨ (out = .done ∧ x''.result = some (.ok x'.value)))
 
 /-- the two things `KInv.execFrame` asks for -/
-def ExecGoal (ρ : Nat → Nat → Nat) (ar : Nat → Nat) (s s' : Sys) (i : Wid) : Prop :=
+def ExecGoal (ρ : Nat → Nat → Nat) (ar : Nat → Nat) (σ : Nat → List (Nat × Nat)) (s s' : Sys) (i : Wid) : Prop :=
   (∀ p x, (s.wk i).procs p = some x → ∃ x', (s'.wk i).procs p = some x' ∧ x'.fn = x.fn) ∧
-  ((∀ q f, Sid s q f → Sid s' q f) → ∀ p x', (s'.wk i).procs p = some x' → PInv ρ ar s' i p x')
+  ((∀ q f, Sid s q f → Sid s' q f) → ∀ p x', (s'.wk i).procs p = some x' → PInv ρ ar σ s' i p x')
 
-theorem exec_same_case {ρ : Nat → Nat → Nat} {ar : Nat → Nat} {s s' : Sys} (h : KInv ρ ar s) (i : Wid)
-    (hprog : s'.prog = s.prog) (hcmd : s'.cmdQ = s.cmdQ)
-    (hcs : CtlSame (s.wk i) (s'.wk i)) (hev : s'.evtQ i = s.evtQ i) : ExecGoal ρ ar s s' i := by
+theorem exec_same_case {ρ : Nat → Nat → Nat} {ar : Nat → Nat} {σ : Nat → List (Nat × Nat)} {s s' : Sys} (h : KInv ρ ar σ s) (i : Wid)
+    (hprog : s'.prog = s.prog) (hcmd : s'.cmdQ = s.cmdQ) (happ : s'.appended = s.appended)
+    (hcs : CtlSame (s.wk i) (s'.wk i)) (hev : s'.evtQ i = s.evtQ i) : ExecGoal ρ ar σ s s' i := by
   refine ⟨?_, ?_⟩
   · intro p x hx
     obtain ⟨x', hx', hc⟩ := hcs.fwd hx
@@ -991,18 +1368,19 @@ theorem exec_same_case {ρ : Nat → Nat → Nat} {ar : Nat → Nat} {s s' : Sys
     obtain ⟨x, hx, hc⟩ := hcs.back hx'
     exact (h.procs i p x hx).transfer hprog hsid hc (by rw [hcs.1]; exact id)
       (fun q hm => Or.inl (by rw [hcmd] at hm; exact hm)) (fun f regs co hm => by rw [hev] at hm; exact hm)
+      (napp_of_eq happ p)
 
-theorem exec_slice_case {ρ : Nat → Nat → Nat} {ar : Nat → Nat} {s s' : Sys} (h : KInv ρ ar s) (i : Wid) {cur : Pid}
+theorem exec_slice_case {ρ : Nat → Nat → Nat} {ar : Nat → Nat} {σ : Nat → List (Nat × Nat)} {s s' : Sys} (h : KInv ρ ar σ s) (i : Wid) {cur : Pid}
     {x x' : Proc} {out : Outcome} (hx : (s.wk i).procs cur = some x) (hnsp : cur ∉ (s.wk i).spawning)
-    (hok : SliceOK s.prog ρ x (x', out))
-    (hprog : s'.prog = s.prog) (hcmd : s'.cmdQ = s.cmdQ)
+    (hok : SliceOK s.prog ρ σ ((σ x.fn).drop (napp s cur)) x (x', out))
+    (hprog : s'.prog = s.prog) (hcmd : s'.cmdQ = s.cmdQ) (happ : s'.appended = s.appended)
     (hsp : ∀ p, p ∈ (s.wk i).spawning → p ∈ (s'.wk i).spawning)
     (hpark : ∀ f regs, out = .spawn f regs → cur ∈ (s'.wk i).spawning)
     (hcur : ∃ x'', (s'.wk i).procs cur = some x'' ∧ AfterRel x' x'' out)
     (hoth : ∀ p, p ≠ cur → ((s'.wk i).procs p).map Ctl = ((s.wk i).procs p).map Ctl)
     (hev : ∀ e, e ∈ s'.evtQ i → e ∈ s.evtQ i ∨ (∀ a f regs co, e ≠ .spawn a f regs co) ∨
-      (∃ f regs, out = .spawn f regs ∧ e = .spawn cur f regs none)) : ExecGoal ρ ar s s' i := by
-  obtain ⟨x'', hx'', e1, e2, e3, e4, e5, e7, e6⟩ := hcur
+      (∃ f regs, out = .spawn f regs ∧ e = .spawn cur f regs none)) : ExecGoal ρ ar σ s s' i := by
+  obtain ⟨x'', hx'', e1, e2, e3, e4, e5, e7, e8, e6⟩ := hcur
   have hback : ∀ p, p ≠ cur → ∀ y', (s'.wk i).procs p = some y' → ∃ y, (s.wk i).procs p = some y ∧ Ctl y' = Ctl y := by
     intro p hp y' hy'
     have := hoth p hp
@@ -1028,7 +1406,7 @@ theorem exec_slice_case {ρ : Nat → Nat → Nat} {ar : Nat → Nat} {s s' : Sy
     by_cases hp : p = cur
     · subst hp
       rw [hx''] at hy'; simp only [Option.some.injEq] at hy'; subst hy'
-      refine (h.procs i p x hx).afterSlice hok hprog hsid e1 e2 e3 e4 e5 e7 e6 ?_ ?_ hpark
+      refine (h.procs i p x hx).afterSlice hok hprog hsid (napp_of_eq happ p) e1 e2 e3 e4 e5 e7 e8 e6 ?_ ?_ hpark
       · intro q hm; rw [hcmd] at hm; exact hnon q hm
       · intro f regs co hm
         rcases hev _ hm with h1 | h1 | ⟨f', regs', ho, h1⟩
@@ -1037,21 +1415,22 @@ theorem exec_slice_case {ρ : Nat → Nat → Nat} {ar : Nat → Nat} {s s' : Sy
         · simp only [Evt.spawn.injEq] at h1; obtain ⟨_, rfl, rfl, _⟩ := h1; exact ho
     · obtain ⟨y, hy, hc⟩ := hback p hp y' hy'
       refine (h.procs i p y hy).transfer hprog hsid hc (hsp p) (fun q hm => Or.inl (by rw [hcmd] at hm; exact hm)) ?_
+        (napp_of_eq happ p)
       intro f regs co hm
       rcases hev _ hm with h1 | h1 | ⟨f', regs', ho, h1⟩
       · exact h1
       · exact absurd rfl (h1 p f regs co)
       · simp only [Evt.spawn.injEq] at h1; exact absurd h1.1 hp
 
-theorem KInv.execStep {ρ : Nat → Nat → Nat} {ar : Nat → Nat} {s : Sys} (h : KInv ρ ar s) (i : Wid) (fuel : Nat) (ordQ : List Pid) :
-    KInv ρ ar (QM.Sys.execStep s i fuel ordQ) := by
+theorem KInv.execStep {ρ : Nat → Nat → Nat} {ar : Nat → Nat} {σ : Nat → List (Nat × Nat)} {s : Sys} (h : KInv ρ ar σ s) (i : Wid) (fuel : Nat) (ordQ : List Pid) :
+    KInv ρ ar σ (QM.Sys.execStep s i fuel ordQ) := by
   have ht : TInv (QM.Sys.execStep s i fuel ordQ) := h.t.micro (.exec i fuel ordQ)
   have hw : WInv (QM.Sys.execStep s i fuel ordQ) := h.wi.micro (.exec i fuel ordQ)
   obtain ⟨hcmd, _, hprog, _, _, _, hoth⟩ := execStep_frame s i fuel ordQ
   refine h.execFrame ht hw i hprog hcmd (fun k hk => (hoth k hk).1)
-    (fun k hk e he => by rw [(hoth k hk).2] at he; exact he) ?_
+    (fun k hk e he => by rw [(hoth k hk).2] at he; exact he) (Shape.execStep s i fuel ordQ).appended ?_
   clear ht hw hoth hcmd hprog
-  show ExecGoal ρ ar s (QM.Sys.execStep s i fuel ordQ) i
+  show ExecGoal ρ ar σ s (QM.Sys.execStep s i fuel ordQ) i
   unfold QM.Sys.execStep
   dsimp only
   have hs0 : WSched ((s.wk i).checkExpired s.prog s.now ordQ) := (h.wi.si.sched i).checkExpired _ _ _
@@ -1059,10 +1438,10 @@ theorem KInv.execStep {ρ : Nat → Nat → Nat} {ar : Nat → Nat} {s : Sys} (h
   have hsp0 : ((s.wk i).checkExpired s.prog s.now ordQ).spawning = (s.wk i).spawning := rfl
   generalize (s.wk i).checkExpired s.prog s.now ordQ = w0 at hs0 hp0 hsp0 ⊢
   split
-  · exact exec_same_case h i rfl rfl (by simp only [setWk_wk, upd_same]; exact CtlSame.of_procs hp0 hsp0) rfl
+  · exact exec_same_case h i rfl rfl rfl (by simp only [setWk_wk, upd_same]; exact CtlSame.of_procs hp0 hsp0) rfl
   · rename_i cur rest hq0
     split
-    · exact exec_same_case h i rfl rfl (by simp only [setWk_wk, upd_same]; exact CtlSame.of_procs hp0 hsp0) rfl
+    · exact exec_same_case h i rfl rfl rfl (by simp only [setWk_wk, upd_same]; exact CtlSame.of_procs hp0 hsp0) rfl
     · rename_i x hx0
       have hx : (s.wk i).procs cur = some x := by rw [← hp0]; exact hx0
       have hcurq : cur ∈ w0.queue := by rw [hq0]; simp
@@ -1077,7 +1456,7 @@ theorem KInv.execStep {ρ : Nat → Nat → Nat} {ar : Nat → Nat} {s : Sys} (h
           cases hb : x.spawnIssued with
           | false => rfl
           | true => exact absurd ((h.procs i cur x hx).parked hb).1 hnsp
-        have hok := slice_spec h.typing s.now cur fuel x (h.runnable hx hres hiss)
+        have hok := slice_spec h.typing ((σ x.fn).drop (napp s cur)) s.now cur fuel x (h.runnable hx hres hiss)
         generalize slice s.prog s.now cur fuel x = r at hok ⊢
         obtain ⟨x', out⟩ := r
         dsimp only
@@ -1085,24 +1464,24 @@ theorem KInv.execStep {ρ : Nat → Nat → Nat} {ar : Nat → Nat} {s : Sys} (h
           intro p hp; simp [hp, hp0]
         cases out with
         | cont =>
-          refine exec_slice_case h i hx hnsp hok rfl rfl ?_ ?_ ?_ ?_ ?_
+          refine exec_slice_case h i hx hnsp hok rfl rfl rfl ?_ ?_ ?_ ?_ ?_
           · intro p hp; simpa [hsp0] using hp
           · intro f regs ho; cases ho
-          · exact ⟨x', by simp, rfl, rfl, rfl, rfl, rfl, rfl, Or.inl hok.res⟩
+          · exact ⟨x', by simp, rfl, rfl, rfl, rfl, rfl, rfl, rfl, Or.inl hok.res⟩
           · intro p hp; simpa using hothp p hp
           · intro e he; exact Or.inl (by simpa using he)
         | blocked =>
-          refine exec_slice_case h i hx hnsp hok rfl rfl ?_ ?_ ?_ ?_ ?_
+          refine exec_slice_case h i hx hnsp hok rfl rfl rfl ?_ ?_ ?_ ?_ ?_
           · intro p hp; simpa [hsp0] using hp
           · intro f regs ho; cases ho
-          · exact ⟨x', by simp, rfl, rfl, rfl, rfl, rfl, rfl, Or.inl hok.res⟩
+          · exact ⟨x', by simp, rfl, rfl, rfl, rfl, rfl, rfl, rfl, Or.inl hok.res⟩
           · intro p hp; simpa using hothp p hp
           · intro e he; exact Or.inl (by simpa using he)
         | send t m =>
-          refine exec_slice_case h i hx hnsp hok rfl rfl ?_ ?_ ?_ ?_ ?_
+          refine exec_slice_case h i hx hnsp hok rfl rfl rfl ?_ ?_ ?_ ?_ ?_
           · intro p hp; simpa [hsp0] using hp
           · intro f regs ho; cases ho
-          · exact ⟨x', by simp, rfl, rfl, rfl, rfl, rfl, rfl, Or.inl hok.res⟩
+          · exact ⟨x', by simp, rfl, rfl, rfl, rfl, rfl, rfl, rfl, Or.inl hok.res⟩
           · intro p hp; simpa using hothp p hp
           · intro e he
             have he' : e ∈ upd s.evtQ i (s.evtQ i ++ [Evt.deliver t m]) i := he
@@ -1110,10 +1489,10 @@ theorem KInv.execStep {ρ : Nat → Nat → Nat} {ar : Nat → Nat} {s : Sys} (h
             · exact Or.inl h1
             · exact Or.inr (Or.inl (by intros; simp))
         | awaitInit ts =>
-          refine exec_slice_case h i hx hnsp hok rfl rfl ?_ ?_ ?_ ?_ ?_
+          refine exec_slice_case h i hx hnsp hok rfl rfl rfl ?_ ?_ ?_ ?_ ?_
           · intro p hp; simpa [hsp0] using hp
           · intro f regs ho; cases ho
-          · exact ⟨x', by simp, rfl, rfl, rfl, rfl, rfl, rfl, Or.inl hok.res⟩
+          · exact ⟨x', by simp, rfl, rfl, rfl, rfl, rfl, rfl, rfl, Or.inl hok.res⟩
           · intro p hp; simpa using hothp p hp
           · intro e he
             have he' : e ∈ upd s.evtQ i (s.evtQ i ++ [Evt.await cur ts]) i := he
@@ -1121,10 +1500,10 @@ theorem KInv.execStep {ρ : Nat → Nat → Nat} {ar : Nat → Nat} {s : Sys} (h
             · exact Or.inl h1
             · exact Or.inr (Or.inl (by intros; simp))
         | spawn f regs =>
-          refine exec_slice_case h i hx hnsp hok rfl rfl ?_ ?_ ?_ ?_ ?_
+          refine exec_slice_case h i hx hnsp hok rfl rfl rfl ?_ ?_ ?_ ?_ ?_
           · intro p hp; simp only [pushEvt_wk, setWk_wk, upd_same]; exact mem_sinsert.mpr (Or.inl (by rw [hsp0]; exact hp))
           · intro f' regs' ho; simp only [pushEvt_wk, setWk_wk, upd_same]; exact mem_sinsert.mpr (Or.inr rfl)
-          · exact ⟨x', by simp, rfl, rfl, rfl, rfl, rfl, rfl, Or.inl hok.res⟩
+          · exact ⟨x', by simp, rfl, rfl, rfl, rfl, rfl, rfl, rfl, Or.inl hok.res⟩
           · intro p hp; simpa using hothp p hp
           · intro e he
             have he' : e ∈ upd s.evtQ i (s.evtQ i ++ [Evt.spawn cur f regs none]) i := he
@@ -1136,22 +1515,23 @@ theorem KInv.execStep {ρ : Nat → Nat → Nat} {ar : Nat → Nat} {s : Sys} (h
           have hfc := finish_ctl { w0 with queue := rest, procs := upd w0.procs cur (some x') } cur x' ordQ
             (by rw [hok.res]; simp)
           generalize WorkerSt.finish { w0 with queue := rest, procs := upd w0.procs cur (some x') } cur x' ordQ = wf at hfc ⊢
-          refine exec_slice_case h i hx hnsp hok rfl rfl ?_ ?_ ?_ ?_ ?_
+          refine exec_slice_case h i hx hnsp hok rfl rfl rfl ?_ ?_ ?_ ?_ ?_
           · intro p hp; simp only [setWk_wk, upd_same]; rw [hfc.1]; simpa [hsp0] using hp
           · intro f regs ho; cases ho
           · obtain ⟨x'', hx'', hc⟩ := hfc.fwd (p := cur) (x := { x' with result := some (.ok x'.value) }) (by simp)
-            obtain ⟨c1, c2, c3, c4, c5, c6, c7⟩ := ctl_eq hc
-            exact ⟨x'', by simpa using hx'', c1, c2, c3, c4, c5, c7, Or.inr ⟨rfl, c6⟩⟩
+            obtain ⟨c1, c2, c3, c4, c5, c6, c7, c8⟩ := ctl_eq hc
+            exact ⟨x'', by simpa using hx'', c1, c2, c3, c4, c5, c7, c8, Or.inr ⟨rfl, c6⟩⟩
           · intro p hp
             simp only [setWk_wk, upd_same]
             rw [hfc.2 p]; simpa [hp] using hothp p hp
           · intro e he; exact Or.inl (by simpa using he)
 
-theorem KInv.micro {ρ : Nat → Nat → Nat} {ar : Nat → Nat} {s : Sys} (h : KInv ρ ar s) (m : Micro) :
-    KInv ρ ar (microStep Rules.current s m) := by
+theorem KInv.micro {ρ : Nat → Nat → Nat} {ar : Nat → Nat} {σ : Nat → List (Nat × Nat)} {s : Sys} (h : KInv ρ ar σ s) (m : Micro)
+    (hsd : StreamOK σ (microStep Rules.current s m)) :
+    KInv ρ ar σ (microStep Rules.current s m) := by
   cases m with
   | env w => exact h.envStep1 w
-  | cmd i => exact h.cmdStep1 i
+  | cmd i => exact h.cmdStep1 i hsd
   | exec i fuel ordQ => exact h.execStep i fuel ordQ
   | check i ordE => exact h.checkStep i ordE
   | tick ms => exact h.tick ms
@@ -1193,8 +1573,8 @@ theorem microStep_prog (R : Rules) (s : Sys) (m : Micro) : (microStep R s m).pro
 theorem run_prog (R : Rules) (s : Sys) (cs : List Choice) : (runWith R s cs).prog = s.prog :=
   run_invariant R (fun s' => s'.prog = s.prog) (fun s' m h => (microStep_prog R s' m).trans h) cs s rfl
 
-theorem KInv.of_started {ρ : Nat → Nat → Nat} {ar : Nat → Nat} {s : Sys} (h : Started s) (hty : RegTyping s.prog ρ ar) :
-    KInv ρ ar s := by
+theorem KInv.of_started {ρ : Nat → Nat → Nat} {ar : Nat → Nat} {σ : Nat → List (Nat × Nat)} {s : Sys} (h : Started s) (hty : RegTyping s.prog ρ ar) :
+    KInv ρ ar σ s := by
   have hcmd : ∀ w c, c ∈ s.cmdQ w → c = .misc ∨ ∃ r p, c = .getResult r p := by
     intro w c hc
     by_cases ew : w = 0
@@ -1203,7 +1583,7 @@ theorem KInv.of_started {ρ : Nat → Nat → Nat} {ar : Nat → Nat} {s : Sys} 
       rw [hq] at hc; simp at hc
       exact Or.inr ⟨req, 0, hc⟩
     · exact Or.inl (h.cmdOther w ew c hc)
-  refine ⟨TInv.of_started h, WInv.of_started h, hty, ?_, ?_⟩
+  refine ⟨TInv.of_started h, WInv.of_started h, hty, ?_, ?_, by rw [h.appended]; intro e he; cases he⟩
   · intro w p x hx
     have hx0 := hx
     rw [h.procs] at hx
@@ -1211,8 +1591,11 @@ theorem KInv.of_started {ρ : Nat → Nat → Nat} {ar : Nat → Nat} {s : Sys} 
     · rename_i hwp
       obtain ⟨rfl, rfl⟩ := hwp
       simp only [Option.some.injEq] at hx; subst hx
-      refine ⟨by simp, by simp [Proc.sleeping, Proc.fresh], Nat.zero_le _, by simp, Trace.zero 0, ?_, ?_,
+      refine ⟨by simp, by simp [Proc.sleeping, Proc.fresh], Nat.zero_le _, by simp, ?_, ?_, ?_,
         by simp [Proc.sleeping, Proc.fresh], ?_, ?_⟩
+      · refine ⟨σ 0, Trace.zero 0, fun _ => ?_⟩
+        show σ 0 = (Proc.sleeping 0).mailbox.map Msg.key ++ (σ 0).drop (napp s 0)
+        simp [napp, h.appended, Proc.sleeping, Proc.fresh]
       · show ([0] : List Pid).length = base s.prog ar 0 0
         simp [base, nspawn, hty.main0]
       · intro r hr
@@ -1229,17 +1612,252 @@ theorem KInv.of_started {ρ : Nat → Nat → Nat} {ar : Nat → Nat} {s : Sys} 
   · intro w q f regs hm
     rcases hcmd w _ hm with h1 | ⟨_, _, h1⟩ <;> cases h1
 
+/-! ### processes keep their script; the arrival history only grows -/
+
+def FnKeep (w w' : WorkerSt) : Prop := ∀ p x, w.procs p = some x → ∃ x', w'.procs p = some x' ∧ x'.fn = x.fn
+
+theorem FnKeep.refl (w : WorkerSt) : FnKeep w w := fun _ x h => ⟨x, h, rfl⟩
+theorem FnKeep.trans {a b c : WorkerSt} (h1 : FnKeep a b) (h2 : FnKeep b c) : FnKeep a c := by
+  intro p x hx
+  obtain ⟨y, hy, e1⟩ := h1 p x hx
+  obtain ⟨z, hz, e2⟩ := h2 p y hy
+  exact ⟨z, hz, e2.trans e1⟩
+theorem FnKeep.of_procs {w w' : WorkerSt} (h : w'.procs = w.procs) : FnKeep w w' := fun p x hx => ⟨x, by rw [h]; exact hx, rfl⟩
+
+theorem FnKeep.updProc {w w' : WorkerSt} {q : Pid} {y' : Proc} (hp : w'.procs = upd w.procs q (some y'))
+    (hy : ∀ y, w.procs q = some y → y'.fn = y.fn) : FnKeep w w' := by
+  intro p x hx
+  rw [hp]
+  by_cases e : p = q
+  · subst e; exact ⟨y', by simp, hy x hx⟩
+  · exact ⟨x, by simp [e, hx], rfl⟩
+
+theorem FnKeep.modProc (w : WorkerSt) (q : Pid) (f : Proc → Proc) (hf : ∀ y, (f y).fn = y.fn) : FnKeep w (w.modProc q f) := by
+  unfold WorkerSt.modProc
+  split
+  · rename_i y hy
+    exact FnKeep.updProc (q := q) (y' := f y) rfl (fun y0 h0 => by rw [hy] at h0; cases h0; exact hf y)
+  · exact FnKeep.refl _
+
+theorem FnKeep.wakeSelecting (w : WorkerSt) (q : Pid) : FnKeep w (w.wakeSelecting q) :=
+  FnKeep.of_procs (by unfold WorkerSt.wakeSelecting; split <;> rfl)
+
+theorem FnKeep.notifyResult (w : WorkerSt) (a t : Pid) (r : Res) : FnKeep w (w.notifyResult a t r) := by
+  cases r with
+  | ok v =>
+    show FnKeep w (w.notifyResultOk a t v)
+    unfold WorkerSt.notifyResultOk
+    exact (FnKeep.modProc w a _ (fun y => by split <;> rfl)).trans (FnKeep.wakeSelecting _ a)
+  | err =>
+    show FnKeep w (w.notifyFailure a t)
+    unfold WorkerSt.notifyFailure
+    split
+    · split
+      · refine (FnKeep.modProc w a _ ?_).trans (FnKeep.wakeSelecting _ a)
+        intro y; rfl
+      · exact FnKeep.refl _
+    · exact FnKeep.refl _
+
+theorem FnKeep.applyResults (a : Pid) : ∀ (rs : Results) (w : WorkerSt), FnKeep w (applyResults w a rs)
+  | [], w => FnKeep.refl w
+  | (t0, some r) :: rest, w => by
+    unfold QM.Sys.applyResults; exact (FnKeep.notifyResult w a t0 r).trans (FnKeep.applyResults a rest _)
+  | (_, none) :: rest, w => by
+    unfold QM.Sys.applyResults; exact FnKeep.applyResults a rest w
+
+theorem FnKeep.foldl {α : Type} (f : WorkerSt → α → WorkerSt) (hf : ∀ w a, FnKeep w (f w a)) :
+    ∀ (l : List α) (w : WorkerSt), FnKeep w (l.foldl f w)
+  | [], w => FnKeep.refl w
+  | a :: l, w => (hf w a).trans (FnKeep.foldl f hf l (f w a))
+
+theorem FnKeep.finish (w : WorkerSt) (cur : Pid) (x : Proc) (ordQ : List Pid) (hx : ∀ y, w.procs cur = some y → x.fn = y.fn) :
+    FnKeep w (w.finish cur x ordQ) := by
+  unfold WorkerSt.finish
+  dsimp only
+  refine (FnKeep.updProc (w' := { w with procs := upd w.procs cur (some { x with result := some x.finalRes }) })
+    (q := cur) (y' := { x with result := some x.finalRes }) rfl hx).trans ?_
+  exact FnKeep.foldl _ (fun w' a => FnKeep.notifyResult w' a cur _) _ _
+
+theorem slice_fn (prog : Prog) (now : Nat) (self : Pid) : ∀ (fuel : Nat) (p : Proc), (slice prog now self fuel p).1.fn = p.fn
+  | 0, p => rfl
+  | fuel + 1, p => by
+    unfold slice
+    split
+    · rfl
+    · rfl
+    · split <;> rfl
+    · rfl
+    · split
+      · dsimp only
+        split
+        · exact slice_fn prog now self fuel _
+        · rfl
+      · dsimp only
+        split
+        · exact slice_fn prog now self fuel _
+        · rfl
+        · rfl
+
+theorem FnKeep.execStep (s : Sys) (i : Wid) (fuel : Nat) (ordQ : List Pid) :
+    FnKeep (s.wk i) ((QM.Sys.execStep s i fuel ordQ).wk i) := by
+  unfold QM.Sys.execStep
+  dsimp only
+  have h0 : FnKeep (s.wk i) ((s.wk i).checkExpired s.prog s.now ordQ) := FnKeep.of_procs rfl
+  generalize (s.wk i).checkExpired s.prog s.now ordQ = w0 at h0 ⊢
+  split
+  · simp only [setWk_wk, upd_same]; exact h0
+  · rename_i cur rest _
+    have h1 : FnKeep (s.wk i) { w0 with queue := rest } := h0.trans (FnKeep.of_procs rfl)
+    split
+    · simp only [setWk_wk, upd_same]; exact h1
+    · rename_i x hx
+      split
+      · simp only [setWk_wk, upd_same]
+        exact h1.trans (FnKeep.finish _ cur x ordQ (fun y hy => by rw [hx] at hy; cases hy; rfl))
+      · have hsl := slice_fn s.prog s.now cur fuel x
+        generalize slice s.prog s.now cur fuel x = r at hsl
+        obtain ⟨x', out⟩ := r
+        dsimp only at hsl ⊢
+        have h2 : ∀ (qq sp se : List Pid), FnKeep (s.wk i) { w0 with queue := qq, spawning := sp, selecting := se, procs := upd w0.procs cur (some x') } := by
+          intro qq sp se
+          refine h0.trans (FnKeep.updProc (q := cur) (y' := x') rfl ?_)
+          intro y hy
+          have : w0.procs cur = some x := hx
+          rw [this] at hy; cases hy; exact hsl
+        cases out with
+        | cont => simp only [setWk_wk, upd_same]; exact h2 _ _ _
+        | send t m => simp only [pushEvt_wk, setWk_wk, upd_same]; exact h2 _ _ _
+        | spawn fn regs => simp only [pushEvt_wk, setWk_wk, upd_same]; exact h2 _ _ _
+        | awaitInit ts => simp only [pushEvt_wk, setWk_wk, upd_same]; exact h2 _ _ _
+        | blocked => simp only [setWk_wk, upd_same]; exact h2 _ _ _
+        | failed =>
+          simp only [setWk_wk, upd_same]
+          exact (h2 rest w0.spawning w0.selecting).trans (FnKeep.finish _ cur x' ordQ (fun y hy => by simp at hy; subst hy; rfl))
+        | done =>
+          simp only [setWk_wk, upd_same]
+          exact (h2 rest w0.spawning w0.selecting).trans (FnKeep.finish _ cur x' ordQ (fun y hy => by simp at hy; subst hy; rfl))
+
+theorem FnKeep.handleCmd {s : Sys} (i : Wid) (c : Cmd) (hok : ∀ p fn, c ≠ .resume p fn) (hst : ∀ p, c ≠ .start p)
+    (hfresh : ∀ q f regs, c = .spawn q f regs → (s.wk i).procs q = none) :
+    FnKeep (s.wk i) ((handleCmdWith Rules.current s i c).wk i) := by
+  cases c with
+  | misc => exact FnKeep.refl _
+  | start p => exact absurd rfl (hst p)
+  | resume p fn => exact absurd rfl (hok p fn)
+  | spawn p fn regs =>
+    simp only [handleCmdWith]
+    split
+    · exact FnKeep.refl _
+    · simp only [setWk_wk, upd_same]
+      refine FnKeep.updProc (q := p) (y' := Proc.fresh fn (p :: regs)) (by simp [WorkerSt.setProc]) ?_
+      intro y hy; rw [hfresh p fn regs rfl] at hy; cases hy
+  | notifySpawn caller newPid =>
+    cases hx : (s.wk i).procs caller with
+    | none => simp only [handleCmdWith, hx, setWk_wk, upd_same]; exact FnKeep.of_procs rfl
+    | some x =>
+      simp only [handleCmdWith, hx, setWk_wk, upd_same]
+      split
+      · exact FnKeep.updProc (q := caller) (y' := { x with regs := x.regs ++ [newPid], pc := x.pc + 1, spawnIssued := false }) rfl
+          (fun y hy => by rw [hx] at hy; cases hy; rfl)
+      · exact FnKeep.updProc (q := caller) (y' := { x with regs := x.regs ++ [newPid], pc := x.pc + 1, spawnIssued := false }) rfl
+          (fun y hy => by rw [hx] at hy; cases hy; rfl)
+  | deliver t m =>
+    cases hx : (s.wk i).procs t with
+    | none => simp only [handleCmdWith, hx, setWk_wk, upd_same]; exact FnKeep.wakeSelecting _ t
+    | some x =>
+      simp only [handleCmdWith, hx, setWk_wk, upd_same]
+      exact (FnKeep.updProc (q := t) (y' := { x with mailbox := x.mailbox ++ [m] })
+        (w' := { s.wk i with procs := upd (s.wk i).procs t (some { x with mailbox := x.mailbox ++ [m] }) }) rfl
+        (fun y hy => by rw [hx] at hy; cases hy; rfl)).trans (FnKeep.wakeSelecting _ t)
+  | queryAwait a ts =>
+    simp only [handleCmdWith, pushEvt_wk, setWk_wk, upd_same]
+    exact FnKeep.of_procs (queryTargets_spec a ts (s.wk i)).1
+  | updateAwait a rs =>
+    simp only [handleCmdWith, Rules.current, Bool.false_and, Bool.false_eq_true, if_false, setWk_wk, upd_same]
+    exact (FnKeep.applyResults a rs _).trans (FnKeep.wakeSelecting _ a)
+  | getResult req p =>
+    simp only [handleCmdWith]
+    repeat' split
+    all_goals first
+      | exact FnKeep.refl _
+      | (simp only [setWk_wk, upd_same]; exact FnKeep.of_procs rfl)
+
+theorem fnKeep_micro {s : Sys} (h : SInv s) (m : Micro) : ∀ w, FnKeep (s.wk w) ((microStep Rules.current s m).wk w) := by
+  intro w
+  cases m with
+  | env w0 => exact FnKeep.of_procs (by show ((envStep1With _ s w0).wk w).procs = _; rw [envStep1_wk])
+  | tick ms => exact FnKeep.refl _
+  | check i ordE =>
+    have hc := CheckRel.checkStep s i ordE
+    by_cases e : w = i
+    · subst e; exact FnKeep.of_procs hc.procs
+    · show FnKeep (s.wk w) ((QM.Sys.checkStep s i ordE).wk w)
+      rw [hc.wkOther w e]; exact FnKeep.refl _
+  | exec i fuel ordQ =>
+    by_cases e : w = i
+    · subst e; exact FnKeep.execStep s w fuel ordQ
+    · show FnKeep (s.wk w) ((QM.Sys.execStep s i fuel ordQ).wk w)
+      rw [((execStep_frame s i fuel ordQ).2.2.2.2.2.2 w e).1]; exact FnKeep.refl _
+  | cmd i =>
+    show FnKeep (s.wk w) ((cmdStep1With Rules.current s i).wk w)
+    unfold cmdStep1With
+    split
+    · exact FnKeep.refl _
+    · rename_i c rest hq
+      have hok := h.r.cmds i c (by rw [hq]; simp)
+      by_cases e : w = i
+      · subst e
+        refine FnKeep.handleCmd (s := { s with cmdQ := upd s.cmdQ w rest }) w c ?_ ?_ ?_
+        · intro p fn e; subst e; exact hok.elim
+        · intro p e; subst e; exact hok.elim
+        · intro q f regs e; subst e
+          have hfresh : ¬ known s w q := (h.fresh w).2 q (mem_creates.mpr ⟨f, regs, by rw [hq]; simp⟩)
+          cases hp : (s.wk w).procs q with
+          | none => rfl
+          | some y => exact absurd (by simp [known, hp]) hfresh
+      · rw [((handleCmd_frame Rules.current _ i c).2.2.2.2.2 w e).1]; exact FnKeep.refl _
+
+theorem appended_mono_micro (s : Sys) (m : Micro) : s.appended <+: (microStep Rules.current s m).appended := by
+  cases m with
+  | env w0 => show s.appended <+: (envStep1With _ s w0).appended; rw [envStep1_appended]; exact List.prefix_refl _
+  | tick ms => exact List.prefix_refl _
+  | check i ordE => show s.appended <+: (QM.Sys.checkStep s i ordE).appended; rw [(Shape.checkStep s i ordE).appended]; exact List.prefix_refl _
+  | exec i fuel ordQ => show s.appended <+: (QM.Sys.execStep s i fuel ordQ).appended; rw [(Shape.execStep s i fuel ordQ).appended]; exact List.prefix_refl _
+  | cmd i =>
+    show s.appended <+: (cmdStep1With Rules.current s i).appended
+    unfold cmdStep1With
+    split
+    · exact List.prefix_refl _
+    · rename_i c rest hq
+      rcases handleCmd_appended Rules.current { s with cmdQ := upd s.cmdQ i rest } i c with h1 | ⟨t, m, x, _, _, h1⟩
+      · rw [h1]; exact List.prefix_refl _
+      · rw [h1]; exact List.prefix_append _ _
+
+/-- the stream hypothesis on a later state covers all earlier ones -/
+theorem StreamOK.back {σ : Nat → List (Nat × Nat)} {s : Sys} (h : SInv s) (m : Micro)
+    (hsd : StreamOK σ (microStep Rules.current s m)) : StreamOK σ s := by
+  intro w p x hx hr
+  obtain ⟨x', hx', hf⟩ := fnKeep_micro h m w p x hx
+  have hp := microStep_prog Rules.current s m
+  have := hsd w p x' hx' (by rw [hp, hf]; exact hr)
+  rw [hf] at this
+  exact (((appended_mono_micro s m).filter _).map _).trans this
+
 /-- **Every process's history is the Kahn trace of its script** (reachable states, current rules):
-the invariant holds from the first started state on. -/
-theorem kahn_invariant (ρ : Nat → Nat → Nat) (ar : Nat → Nat) (n : Nat) (prog : Prog) (req : Nat) (hn : 0 < n)
-    (hwf : ProgWF prog) (hty : RegTyping prog ρ ar) (cs : List Choice) :
-    PreStart (run (Sys.init n prog req) cs) ∨ KInv ρ ar (run (Sys.init n prog req) cs) := by
-  have key := invariant_from_init Rules.current (fun s => RegTyping s.prog ρ ar → KInv ρ ar s)
-    (fun s hs hty' => KInv.of_started hs hty')
-    (fun s m hk hty' => (hk (microStep_prog Rules.current s m ▸ hty')).micro m) n prog req hn hwf cs
-  rcases key with h | h
+the invariant holds from the first started state on — for send/spawn/await/receive script tables
+with a register typing, in every run whose arrival histories follow the static streams `σ`. -/
+theorem kahn_invariant (ρ : Nat → Nat → Nat) (ar : Nat → Nat) (σ : Nat → List (Nat × Nat)) (n : Nat) (prog : Prog) (req : Nat)
+    (hn : 0 < n) (hwf : ProgWF prog) (hty : RegTyping prog ρ ar) (cs : List Choice)
+    (hsd : StreamOK σ (run (Sys.init n prog req) cs)) :
+    PreStart (run (Sys.init n prog req) cs) ∨ KInv ρ ar σ (run (Sys.init n prog req) cs) := by
+  have key := invariant_from_init Rules.current
+    (fun s => SInv s ∧ (StreamOK σ s → RegTyping s.prog ρ ar → KInv ρ ar σ s))
+    (fun s hs => ⟨SInv.of_started hs, fun _ hty' => KInv.of_started hs hty'⟩)
+    (fun s m ⟨hsi, hk⟩ => ⟨hsi.micro Rules.current_sane m, fun hsd' hty' =>
+      (hk (StreamOK.back hsi m hsd') (microStep_prog Rules.current s m ▸ hty')).micro m hsd'⟩) n prog req hn hwf cs
+  rcases key with h | ⟨_, h⟩
   · exact Or.inl h
-  · refine Or.inr (h ?_)
+  · refine Or.inr (h hsd ?_)
     have : (runWith Rules.current (Sys.init n prog req) cs).prog = prog := run_prog _ _ _
     rw [this]; exact hty
 
